@@ -12,1245 +12,1257 @@ Definition show_fres (r : fres) : string :=
   end.
 Definition check (rs : list rune) : string := digest (show_fres (format_res rs)).
 Definition full (rs : list rune) : string := show_fres (format_res rs).
-Eval vm_compute in ("<<<M1232>>>" ++ check (runes_of_ascii "packet u {
-    @leftPad
-( '\x00' ) match
-    // @lengthOf(
-    pack
-as	Logon {""" ++ [28040; 24687]%N ++ runes_of_ascii """  : As ,""`tick`""
-    : asx// " ++ [27880; 37322]%N ++ runes_of_ascii "
-, 0 : float} ,
-// @lengthOf(
-// " ++ [128512]%N ++ runes_of_ascii " emoji
-string trueish@calculatedFrom(""a	b"") , // " ++ [27880; 37322]%N ++ runes_of_ascii "
-match matchKey as
-// @lengthOf(
-//	t
-options1{
-//x
-/// triple
-00 :
-lengthOf
-// @lengthOf(
-//x
-} , match
-roots as Header
-{
-    42
-    :
-    string_
-,
-[ 10 ,
-""a\""b"" ,
-    ""\" ++ [233]%N ++ runes_of_ascii """ ,""\" ++ [233]%N ++ runes_of_ascii """  ,
-""CRC32"" ,""1"" , ""it's""
-// " ++ [27880; 37322]%N ++ runes_of_ascii "
-// trailing space 
-, ""abc"" ]
-    :
-lengthOf , ""CRC32"" :  As }, char[] falsey , //	t
-chars
-@lengthOf( a1
-)
-    //
-    , @tag( 255 )
-@lengthOf(x )	match metadata as // " ++ [128512]%N ++ runes_of_ascii " emoji
-rootA {007:
-trueish ,	00 :
-metadata , [ 0123456789] : x_y_z ,0 : Logon }
-    ,@leftPad ('\x00' )
-    zchar[ 1 ]pack `" ++ [233]%N ++ runes_of_ascii "`
-, @leftPad
-( )
-    match x_y_z	as	Z9_ {
-// a // b
-//x
-""" ++ [128512]%N ++ runes_of_ascii """ :leftPad } // packet A { u8 x, }
-,  repeat	Z9_	`tab	here` , // trailing space 
-} options
-// `tick` ""quote"" 'q'
-// " ++ [128512]%N ++ runes_of_ascii " emoji
-{ uint8x
-    = string	;
-}MetaData
-    // packet A { u8 x, }
-    MetaDataX
-    {
-    i64_ uint8x ,
-    zchar[
-0 ]float
-,char[] packetx // c
-`it's`,
-    }
-root
-packet
-crc {
-@tag(
-1 ) i64_ // @lengthOf(
-@calculatedFrom(
-    """ ++ [233]%N ++ runes_of_ascii "t" ++ [233]%N ++ runes_of_ascii """
-),//x
-@calculatedFrom( ""\n"" ) @calculatedFrom( ""it's"")@calculatedFrom( ""a\\""
-    ) chars
-uint8x , @tag(7)match Logon as
-    string_ { 3 : a1 , // " ++ [128512]%N ++ runes_of_ascii " emoji
-}// trailing space 
-, int16 i64_`
-`
-    , @tag(
-1 )
-falsey T
-, } root packet Foo { // trailing space 
-repeat // `tick` ""quote"" 'q'
-zchar{ i64_
-@calculatedFrom( //x
-""" ++ [233]%N ++ runes_of_ascii "t" ++ [233]%N ++ runes_of_ascii """ ) `line1
-line2`, match matchKey as
-zchar {
-    ""1"": As	[
-0 ]
-// a // b
-//
-: f32a
-    , [ ""x y"" ] // packet A { u8 x, }
-: body , ""it's""
-: _x , [ """ ++ [28040; 24687]%N ++ runes_of_ascii """ ,007
-]
-    :matchKey
-    ""x y"" : x_y_z
-, }
-,
-    zchar[ 7 ] metadata @lengthOf(_x )`// not a comment`	, float  @lengthOf(
-    matchKey /// triple
-) ,	}
-, packetx
-@calculatedFrom( ""// no comment""	)  , roots @lengthOf(falsey ), // " ++ [128512]%N ++ runes_of_ascii " emoji
-u8
-calculatedFrom
-    `{ , }` ,
-char[ 10 ]repeatCount // `tick` ""quote"" 'q'
-`crlf
-line` , @lengthOf(
-float//x
-)
-int16 int `two words` , repeat
-u64 x
-, i8i8
-@lengthOf(Packet )
-`" ++ [28040; 24687; 31867; 22411]%N ++ runes_of_ascii "`
-, }")).
-Eval vm_compute in ("<<<M95>>>" ++ check (runes_of_ascii "MetaData chars {} packet lengthOf
-{ @lengthOf(_x )uint16 /// triple
-Z9_`" ++ [28040; 24687; 31867; 22411]%N ++ runes_of_ascii "`, repeat BodyLength{ repeat
-    u8x zchar  , } ,a1	,
-    // " ++ [27880; 37322]%N ++ runes_of_ascii "
-    T @calculatedFrom( ""\" ++ [233]%N ++ runes_of_ascii """)
-, match //	t
-calculatedFrom
-    as string_
-    // " ++ [27880; 37322]%N ++ runes_of_ascii "
-    { """ ++ [233]%N ++ runes_of_ascii "t" ++ [233]%N ++ runes_of_ascii """
-    :// `tick` ""quote"" 'q'
-_x // " ++ [128512]%N ++ runes_of_ascii " emoji
-, ""a	b""
-    : zchar [ ""x y"",
-    10
-    ,	""abc""
-,
-""packet""
-, // c
-""{,}"" //
-,00] :  u128 ,""abc"":x_y_z
-    ,  """ ++ [233]%N ++ runes_of_ascii "t" ++ [233]%N ++ runes_of_ascii """
-    : // packet A { u8 x, }
-packetx
-} // a // b
-, zchar[
-    1 ]// " ++ [128512]%N ++ runes_of_ascii " emoji
-A
-    // " ++ [27880; 37322]%N ++ runes_of_ascii "
-    @lengthOf( float
-    // `tick` ""quote"" 'q'
-    ) `say ""hi""`
-    // trailing space 
-    , repeat f32 asx
-// " ++ [27880; 37322]%N ++ runes_of_ascii "
-// " ++ [128512]%N ++ runes_of_ascii " emoji
-,
-    // " ++ [128512]%N ++ runes_of_ascii " emoji
-    @rightPad
-    ( ' ' // a // b
-)	char[] msg_type `say ""hi""`,
-} packet Pad
-// " ++ [27880; 37322]%N ++ runes_of_ascii "
-// " ++ [27880; 37322]%N ++ runes_of_ascii "
-{ As @lengthOf( rootA )
-`say ""hi""` , repeat
-    _x // trailing space 
-{
-    Logon
-Foo, // `tick` ""quote"" 'q'
-falsey
-MetaDataX ,
-    }  ,msg_type
-    // trailing space 
-    roots `line1
-line2`,pack pack , chars	`crlf
-line` ,@lengthOf(lengthOf) match lengthOf
-    as o { 3
-    : falsey
-    , } ,}packet // trailing space 
-o {// packet A { u8 x, }
-i64_`{ , }` ,
-match MetaDataX as Foo { """ ++ [233]%N ++ runes_of_ascii "t" ++ [233]%N ++ runes_of_ascii """ :
-    leftPad ,
-[	00 ] : f32a
-[ ""`tick`"",
-    0123456789
-]
-: float ,
-""it's"" : pack
-, ""`tick`"" :
-charz } ,
-options1
-    leftPad ,// packet A { u8 x, }
-string body //
-, @calculatedFrom(
-""{,}""  )As
-    //	t
-    , // " ++ [128512]%N ++ runes_of_ascii " emoji
-match u as
-    Packet
-    {
-    ""it's"" :
-_x	, 10 : BodyLength , ""\n"" :
-float 4294967296 :falsey , 007 :	charz
-,00 :stringy , },  repeat string_ ,
-}root packet
-Foo	{ repeat
-    // " ++ [27880; 37322]%N ++ runes_of_ascii "
-    char[	7 ] lengthOf `
-`
-    ,
-//	t
-//x
-@lengthOf( Packet ) repeat // `tick` ""quote"" 'q'
-i32 float , options1 _x	`{ , }`
-, }
-")).
-Eval vm_compute in ("<<<M89>>>" ++ check (runes_of_ascii "packet
-x
-    // `tick` ""quote"" 'q'
-    { len// c
-{// " ++ [27880; 37322]%N ++ runes_of_ascii "
-repeat
-i32	crc `say ""hi""` , match
-    chars as Packet
-{ 0123456789//	t
-: Pad 0123456789 :
-falsey
-    // " ++ [27880; 37322]%N ++ runes_of_ascii "
-    [
-4294967296
-    , 3
-    ,
-4294967296 , 0, ""1"" ] :roots,
-""a\\""
-:
-_x 3
-    : packetx } , repeat string
-    stringy `tab	here`
-,  match roots as lengthOf{
-""abc"" //	t
-:
-packetx , } // packet A { u8 x, }
-, } ,@lengthOf( chars )match  rootA
-    // trailing space 
-    as roots{
-""\n"" //
-:
-    Packet ,} , // `tick` ""quote"" 'q'
-string As `" ++ [28040; 24687; 31867; 22411]%N ++ runes_of_ascii "` , @rightPad (
-'\x00' ) int64 trueish @lengthOf( lengthOf )  `" ++ [233]%N ++ runes_of_ascii "` , } packet	len {	} options
-    {a1
-    // packet A { u8 x, }
-    = false
-    // a // b
-    }packet Z9_{ repeat zchar[ 00
-]  options1
-    //x
-    ,	@lengthOf( falsey ) repeat//	t
-i8 options1 `two words`
-, @rightPad//
-() i8 msg_type, char[3]
-lengthOf `{ , }`	,  string _x,@leftPad (
-) // c
-uint16	chars,
-// @lengthOf(
-//
-@lengthOf(
-crc
-    )@leftPad
-    (
-    // " ++ [128512]%N ++ runes_of_ascii " emoji
-    '0' ) repeat
-stringy calculatedFrom , string
-// " ++ [27880; 37322]%N ++ runes_of_ascii "
-//
-int `line1
-line2`, @rightPad
-( ' '
-    ) match Foo as
-    rootA //x
-{ [ ""packet"", ""a\""b"", """ ++ [128512]%N ++ runes_of_ascii """
-    ,""""	,
-    42 ] : u
-// a // b
-// packet A { u8 x, }
-,
-0 // " ++ [27880; 37322]%N ++ runes_of_ascii "
-:	A
-    , // trailing space 
-00
-:
-asx
-//x
-// trailing space 
-0 :  x_y_z
-    ,
-""CRC32"" : i64_
-, 42 : x
-// c
-// " ++ [128512]%N ++ runes_of_ascii " emoji
-, } , roots{ repeat zchar[10 ] stringy `" ++ [28040; 24687; 31867; 22411]%N ++ runes_of_ascii "` ,	} , } MetaData
-    // `tick` ""quote"" 'q'
-    tag{ f32 tag
-    ``, }
-")).
-Eval vm_compute in ("<<<M1404>>>" ++ check (runes_of_ascii "options {
-    StringPrefixLenType = u16;
-    ArrayPrefixLenType = u16;
+Eval vm_compute in ("<<<M3626>>>" ++ check (runes_of_ascii "root packet charz {
+    repeat o Packet,
 }
 
-packet SampleBinary {
-    uint16 MsgType `" ++ [28040; 24687; 31867; 22411]%N ++ runes_of_ascii "`,
-    u16 BodyLenght @lengthOf(Body) `" ++ [28040; 24687; 20307; 38271; 24230]%N ++ runes_of_ascii "`,
-    match MsgType as Body {
-        1 : Logon,
-        2 : Logout,
-        3 : Heartbeat,
-        4 : RiskControlRequest,
-        5 : RiskControlResponse,
+packet float {
+    match crc as body {
+        ""\" ++ [233]%N ++ runes_of_ascii """ : f32a,
+        4294967296 : len,
+        [""// no comment""] : lengthOf,
+        65535 : i64_,
+        //x
+        //
+        4294967296 : Pad,
     },
-    @calculatedFrom(""CRC32"")
-    u32 Ckecksum `" ++ [26657; 39564; 21644]%N ++ runes_of_ascii "`,
+    Logon,
+    float64 body @lengthOf(leftPad) `say ""hi""`,
+    match u8x as repeatCount {
+        // @lengthOf(
+        """ ++ [128512]%N ++ runes_of_ascii """ : i8i8,
+        ""\n"" : tag,
+        7 : pack,
+        """ ++ [28040; 24687]%N ++ runes_of_ascii """ : calculatedFrom,
+        /// triple
+        [0, ""it's""] : int,
+    },
+    char[0] stringy,
+    repeat float32 trueish `u8 x,`,
+    char[] T,
 }
 
-packet Logon {
-    @leftPad('0')
-    char[10] UserName `" ++ [29992; 25143; 21517]%N ++ runes_of_ascii "`,
-    string Password `" ++ [23494; 30721]%N ++ runes_of_ascii "`,
-    uint64 ClientId `" ++ [23458; 25143; 31471]%N ++ runes_of_ascii "ID`,
-    u16 HeartbeatInterval `" ++ [24515; 36339; 38388; 38548]%N ++ runes_of_ascii "`,
-}
-
-packet Logout {
-    @rightPad('0')
-    char[10] UserName `" ++ [29992; 25143; 21517]%N ++ runes_of_ascii "`,
-    uint64 ClientId `" ++ [23458; 25143; 31471]%N ++ runes_of_ascii "ID`,
-}
-
-packet Heartbeat {
-}
-
-packet RiskControlRequest {
-    string UniqueOrderId `" ++ [21807; 19968; 35746; 21333; 21495]%N ++ runes_of_ascii "`,
-    char[16] ClOrdID `" ++ [23458; 25143; 35746; 21333; 21495]%N ++ runes_of_ascii "`,
-    char[3] MarketID `" ++ [24066; 22330]%N ++ runes_of_ascii "id`,
-    char[12] SecurityID `" ++ [35777; 21048; 20195; 30721]%N ++ runes_of_ascii "`,
-    char Side `" ++ [20080; 21334; 26041; 21521]%N ++ runes_of_ascii "`,
-    char OrderType `" ++ [35746; 21333; 31867; 22411]%N ++ runes_of_ascii "`,
-    u64 Price `" ++ [20215; 26684]%N ++ runes_of_ascii "`,
-    u32 Qty `" ++ [25968; 37327]%N ++ runes_of_ascii "`,
-    repeat string ExtraInfo `" ++ [38468; 21152; 20449; 24687]%N ++ runes_of_ascii "`,
-    repeat SubOrder {
-        char[16] ClOrdID `" ++ [23376; 35746; 21333; 21495]%N ++ runes_of_ascii "`,
-        u64 Price `" ++ [23376; 35746; 21333; 20215; 26684]%N ++ runes_of_ascii "`,
-        u32 Qty `" ++ [23376; 35746; 21333; 25968; 37327]%N ++ runes_of_ascii "`,
+packet calculatedFrom {
+    matchKey matchKey,
+    @leftPad()
+    msg_type,
+    int16 BodyLength `" ++ [233]%N ++ runes_of_ascii "`,
+    char[255] packetx,
+    @calculatedFrom(""x y"")
+    match Packet as uint8x {
+        ""\n"" : repeatCount,
+        [65535] : leftPad,
+        ""\n"" : trueish,
+        [""" ++ [233]%N ++ runes_of_ascii "t" ++ [233]%N ++ runes_of_ascii """, 1, ""abc"", 10] : f32a,
+        // " ++ [27880; 37322]%N ++ runes_of_ascii "
+        [""// no comment""] : u,
+        // @lengthOf(
+        65535 : matchKey,
+    },
+    match _x as float {
+        ""x y"" : len,
+    },
+    char a1 @lengthOf(i64_),
+    _x @calculatedFrom(""\n"") `// not a comment`,
+    repeat calculatedFrom {
+        zchar[1] Foo,
+        char[7] options1 `tab	here`,//
+        match chars as A {
+            4294967296 : string_,
+        },
+        u8x @calculatedFrom(""`tick`""),
     },
 }
 
-packet RiskControlResponse {
-    string UniqueOrderId `" ++ [21807; 19968; 35746; 21333; 21495]%N ++ runes_of_ascii "`,
-    i32 Status `" ++ [29366; 24577]%N ++ runes_of_ascii "`,
-    string Msg `" ++ [32467; 26524; 20449; 24687]%N ++ runes_of_ascii "`,
-    repeat Detail,
-}
-
-packet Detail {
-    string RuleName `" ++ [35268; 21017; 21517; 31216]%N ++ runes_of_ascii "`,
-    u16 Code `" ++ [21407; 22240; 20195; 30721]%N ++ runes_of_ascii "`,
-}")).
-Eval vm_compute in ("<<<M4407>>>" ++ check (runes_of_ascii "packet Packet {
-}
-
-packet repeatCount {
-    @tag(4294967296)
-    @lengthOf(A)
-    @lengthOf(float)
-    rootA,
-    @tag(0123456789)
-    Header `// not a comment`,
-    matchKey f32a,
-    Pad,
-    repeat float32 uint8x `" ++ [233]%N ++ runes_of_ascii "`,
+packet calculatedFrom {
+    @lengthOf(tag)
     @leftPad('\x00')
-    repeat char[3] tag `
-    `,
-    repeat pack {
-        repeat x {
-            repeat f64 len,
-            i64_ len,
-        },
-        repeatCount @lengthOf(uint8x),
-        match zchar as a1 {
-            // a // b
-            // packet A { u8 x, }
-            3 : u,
-        },// packet A { u8 x, }
-        repeat rootA {
-            options1 {
-                repeat body u8x `crlf
-                line`,
-                match Z9_ as f32a {
-                    007 : repeatCount,
-                    ""packet"" : calculatedFrom,
-                    // " ++ [128512]%N ++ runes_of_ascii " emoji
-                    10 : calculatedFrom,
-                    ""CRC32"" : _x,
-                    [""x y""] : i64_,
-                    ""packet"" : MetaDataX,
-                },
-            },
-        },
+    @rightPad('0')
+    char[0123456789] u128,
+    rootA {
+        zchar[4294967296] _x @lengthOf(metadata),
+    },
+    Header u,
+    @calculatedFrom(""it's"")
+    // @lengthOf(
+    // trailing space 
+    Pad @calculatedFrom(""abc""),
+    @lengthOf(u)
+    @lengthOf(len)
+    @rightPad()
+    // trailing space 
+    int64 uint8x `// not a comment`,
+}
+
+root packet roots {
+    u @lengthOf(i8i8),
+    @calculatedFrom(""\" ++ [233]%N ++ runes_of_ascii """)
+    BodyLength Logon,
+    uint16 body @lengthOf(f32a) `a\`,
+    int16 zchar,
+    @calculatedFrom(""a	b"")
+    u32 u128 `
+        `,
+    Pad T `
+        `,
+}")).
+Eval vm_compute in ("<<<M3883>>>" ++ check (runes_of_ascii "// @lengthOf(
+MetaData zchar {
+    string o `crlf
+    line`,
+    char[] pack `crlf
+    line`,
+    char[] Foo,
+}
+
+options {
+    stringy = ""`tick`""
+}
+
+packet leftPad {
+    packetx @lengthOf(roots),
+    @lengthOf(int)
+    @calculatedFrom(""a\""b"")
+    @calculatedFrom(""" ++ [28040; 24687]%N ++ runes_of_ascii """)
+    int32 MetaDataX `" ++ [233]%N ++ runes_of_ascii "`,
+    u8 int,
+    @lengthOf(options1)
+    repeat u8 BodyLength,
+    @tag(1)
+    Logon,
+    repeat int32 u8x `say ""hi""`,
+    match int as charz {
+        ""abc"" : roots,
+    },
+    string_ {
+        zchar @lengthOf(calculatedFrom) ``,
     },
 }
 
-MetaData asx {
-    u trueish,
-    chars f32a `// not a comment`,
-    float64 u128,
-    string_ string_ `
-    `,
+root packet lengthOf {
+    @tag(4294967296)
+    A @lengthOf(i64_) `doc`,
+    body @lengthOf(lengthOf) `it's`,
+    zchar[10] i8i8,
+    @calculatedFrom(""" ++ [233]%N ++ runes_of_ascii "t" ++ [233]%N ++ runes_of_ascii """)
+    i64 int `u8 x,`,
+    repeat trueish {
+        string options1,
+        zchar[0123456789] _x `tab	here`,
+        Pad {
+            repeat string repeatCount,
+            repeat string _x,
+            Packet @lengthOf(roots) `
+            `,
+            string crc @calculatedFrom(""abc""),
+        },
+        match i8i8 as string_ {
+            // c
+            [""it's""] : options1,
+            //
+            // @lengthOf(
+            ""a	b"" : string_,
+            [""a	b"", 00] : metadata,
+            0 : o,
+            ""\" ++ [233]%N ++ runes_of_ascii """ : Pad,
+        },
+    },
+    char[7] i8i8 `tab	here`,
+    roots {
+        repeat uint8 _x `tab	here`,
+    },
+    repeat int64 f32a,
+    match asx as calculatedFrom {
+        65535 : asx,
+        [1] : uint8x,
+        42 : x,
+        [
+            ""x y"", ""1"", ""`tick`"", ""1"", ""1"",
+            ""a	b""
+        ] : MetaDataX,
+    },
 }
 
-packet crc {
+MetaData chars {
 }")).
-Eval vm_compute in ("<<<M245>>>" ++ check (runes_of_ascii "packet As { @lengthOf( // c
-u8x )
-    repeat u32 T ,
-string Foo@calculatedFrom(
-""it's"" ) `doc`  , @tag(
-// a // b
-// " ++ [27880; 37322]%N ++ runes_of_ascii "
-00) //
-@tag( 42 )	repeatCount { packetx { repeat// @lengthOf(
-f64 x_y_z
-    `doc` //x
+Eval vm_compute in ("<<<M3795>>>" ++ check (runes_of_ascii "
+
+  /// triple
+    MetaData	Logon
+
+    {  i16
+body ,
+
+} /// triple
+  root
+
+packet
+    Z9_ {
+    _x
+    // packet A { u8 x, }
+  // " ++ [128512]%N ++ runes_of_ascii " emoji
+		{ Foo{
+matchKey  { 
+repeat leftPad
+    body
+, u128
+    MetaDataX  ,match
+uint8x as
+	BodyLength{ ""abc""
+	:
+
+    int ,
+
+[
+    42, 10 ]
+	:Z9_
+
 ,
-repeat
-    char[65535
-] crc ,} ,
-    u16 A , o @lengthOf( MetaDataX)  `// not a comment`
-    , repeat string  BodyLength `
-`
-    /// triple
-    , }, repeatCount
-@lengthOf( chars)
-,  match //	t
-uint8x
-    as As  {007 :
-Packet """"  : Header 3
-:zchar 7
-// packet A { u8 x, }
-// " ++ [27880; 37322]%N ++ runes_of_ascii "
-:
-u128 , [ 4294967296 ,	""x y"" // " ++ [128512]%N ++ runes_of_ascii " emoji
-]
-:
-crc
-[ ""1"" ,
-    00]:
-//x
-// @lengthOf(
-int ,	}
-,
-@lengthOf( Foo ) repeat // " ++ [128512]%N ++ runes_of_ascii " emoji
-u
-{string float
-// packet A { u8 x, }
-/// triple
-,  string matchKey
-    @calculatedFrom( ""it's"" // " ++ [128512]%N ++ runes_of_ascii " emoji
-)  `it's` ,
-    repeat Packet repeatCount
-    ,
-    }, @lengthOf( T)
-A
-    //x
-    @lengthOf( rootA // c
-) `` ,
-    repeatCount // " ++ [128512]%N ++ runes_of_ascii " emoji
-@calculatedFrom( ""packet"" ) , char[] x
-// `tick` ""quote"" 'q'
-// packet A { u8 x, }
-@calculatedFrom( ""abc"" ) `crlf
-line` , }packet
-i8i8
-// c
-// trailing space 
-{} options{ MetaDataX=true ;//x
-charz	=
-    true ; }
-")).
-Eval vm_compute in ("<<<M4060>>>" ++ check (runes_of_ascii "packet
-T
-{
-}
-root packet
-    BodyLength {
-match falsey as  MetaDataX{
-	[
-    4294967296
 
-    ]  :
-    _x ,// @lengthOf(
+    1 
+: 	 // a // b
+		i64_ 
+0123456789
 
-  00
-:  options1 [  007
-,	// `tick` ""quote"" 'q'
-65535	, 
-""CRC32""	// " ++ [128512]%N ++ runes_of_ascii " emoji
-    ]
-    :
-i64_
-	,	}
-    , @leftPad (	)
-metadata `doc`  //x
-,Z9_ 
-{repeat
-	float32
-	lengthOf
-
-, packetx  { 
-uint16 zchar 
-@calculatedFrom(
-
-    """ ++ [28040; 24687]%N ++ runes_of_ascii """ ) 
-, }
+: u
 	,
-}
+""a\""b"":chars 
+, } 
 ,
 
-    @tag(
+    repeat  //	t
+int32 
 
-    7
-)
+    //x
 
-    uint32  metadata
-@calculatedFrom( ""{,}"") ,
-	char[ 65535  ] string_	`a\`,
-
-    } packet
-
-zchar
-	{  trueish
-
-`crlf
-line`
-
-,
-	@tag( 
-00)
-
-    float
-	Pad 	 // c
-	  ,
-	int16	//x
-
-options1
-@calculatedFrom(
-
-    ""a\\"" 
-) ,	@calculatedFrom(
-	""x y"")
-@lengthOf(
-
-    string_ ) metadata
-
-    @calculatedFrom(
-
-    ""`tick`""
-
-    )
-
-`crlf
-line`
-,
-crc
-        // trailing space 
-  	packetx`crlf
-line` 
-,
-metadata 
-// a // b
-// a // b
-  	packetx
-
-`// not a comment`, i8 u128 
-        //	t
-    	@lengthOf(	int )
-    ,  //	t
-
-@rightPad(
-' '
-)  Header @lengthOf(
-leftPad
-)
-    `doc`
-    ,
-
-    i8i8	Header ``
-, }
-")).
-Eval vm_compute in ("<<<M3541>>>" ++ check (runes_of_ascii "
-
-  options
-{ 
-StringPrefixLenType  =
-u8 ; 
-ArrayPrefixLenType 
-= 
-u32
-	;
-    FixedStringPadFromLeft
-
-=
-	false ;
-FixedStringPadChar =' '
-    ; } packet
-    Party
-    {repeat
-
-i16 
-Qty,	repeat
-    string
-    Tail  ,
-    i8  OrderId ,i8	msgKind 
-, }
-    packet Ack
-{ 
-Party,	repeat
-InRef20 
-{Party
-, int8  tag7	,	char[ 
-5
-
-    ]
-
-    OrderId ,
-	zchar[ 7 
-]
-
-    Tail , char[]
-    count
-
-,InPrice45{
-
-    Party
-,char[ 
-1 ] Px	,
-
-},
-    }
-
-    , 
-char[12	]
-price  ,
-    int8  sym
-, }
-	packet
-
-    Reject  {
-repeat
-
-    InPrice47  {
-	Party, } , zchar[ 4] x,
-repeat
-Ack
+	//	t
+packetx
 
 , 
-zchar[
-2]Ref
-,  repeat Party
+}
+,
+match zchar as
+	u128 
+// @lengthOf(
+	{007  //x
+  :
+msg_type
+""a\\""
+    :	asx ,
+""""  :	T ,007 
+:charz
+,  ""abc"" 
+: 
+/// triple
+		matchKey,
+""x y"" :
 
-,} packet	Cancel
+string_
+, } ,
+
+    repeat
+
+    zchar[  0123456789]// trailing space 
+msg_type
+`doc` 
+,} ,
+    match
+Z9_
+
+as
+    MetaDataX{[
+0 
+,
+
+    ""1""
+]
+
+: 
+
+    // packet A { u8 x, }
+  uint8x [	65535
+, 
+    //
+  //	t
+  """"
+]	: x_y_z, ""x y""	:
+falsey ,
+65535 :packetx	, ""// no comment""
+
+    :
+
+    falsey[ 4294967296 ,
+	""a\""b""
+
+    ,	""\n"" , 
+""a\""b""
+,
+
+    255	]
+:charz
+
+,  }  // @lengthOf(
+,
+} 
+,
+
+chars
+    int `u8 x,`,
+
+    @tag(	65535 ) char[]Header `{ , }`
+,
+@tag(
+255
+)match
+repeatCount
+as
+
+    A
+{[
+
+4294967296 ,	""\" ++ [233]%N ++ runes_of_ascii """	,
+    ""packet""
+,  // packet A { u8 x, }
+	42
+
+    , 007  ,""" ++ [128512]%N ++ runes_of_ascii """,
+	""a\""b"" 
+] // c
+  : lengthOf ,""// no comment""	:
+a1
+    ,""\n""  :	MetaDataX  //x
+    	3// a // b
+: 
+        // @lengthOf(
+
+// packet A { u8 x, }
+
+body  , }
+,
+}")).
+Eval vm_compute in ("<<<M681>>>" ++ check (runes_of_ascii "options {	charz ='\x00'
+string_ = true
+    ; Z9_ = false ; repeatCount	= 7
+; stringy =true }
+MetaData
+lengthOf{ zchar[10
+    ] //x
+uint8x , string u`line1
+line2` , int8
+matchKey
+`two words`
+    ,falsey //
+Z9_
+, packetx pack , u8x x_y_z`line1
+line2` , } packet len //	t
+{ char[] Z9_
+    @calculatedFrom(""""
+    ), zchar[
+    4294967296 ]len `{ , }`,
+// @lengthOf(
+// c
+i32 msg_type `two words`
+    ,@lengthOf( A
+    )	roots `two words` , match Foo as T
+{0 : //x
+rootA
+,255 : packetx 0123456789 :  body /// triple
+, ""abc""
+:
+_x 007:
+As ,""abc""
+    :
+    A, // `tick` ""quote"" 'q'
+} ,body { Pad
+,
+char[]
+    body
+@lengthOf( rootA
+    ),	}
+,	match packetx as i64_{ ""x y"" : options1 // " ++ [27880; 37322]%N ++ runes_of_ascii "
+,
+    ""x y"" : _x , } ,
+@calculatedFrom( ""CRC32"") match options1 // @lengthOf(
+as
+a1{	1 : Z9_ , [
+7 ] :
+// " ++ [27880; 37322]%N ++ runes_of_ascii "
+// trailing space 
+crc,	0 : u
+    //x
+    ,
+    [ ""\n""
+    , ""abc""] :
+    repeatCount [
+    ""\n"" , 0 , 42, ""{,}""
+]:
+x_y_z ,
+    } ,@rightPad ( '\x00'
+    ) repeat i32 MetaDataX `" ++ [233]%N ++ runes_of_ascii "`  , @rightPad
+    (
+    '0' ) matchKey MetaDataX `` , } // " ++ [128512]%N ++ runes_of_ascii " emoji
+packet
+    string_
+{	rootA
+{ repeat
+    lengthOf MetaDataX
+    , string_ @calculatedFrom( ""it's"" ),repeat	float32 msg_type `say ""hi""`
+    // @lengthOf(
+    , f32 metadata ,
+    } , repeat uint32 u `a\` ,	}
+")).
+Eval vm_compute in ("<<<M478>>>" ++ check (runes_of_ascii "packet	leftPad {
+    } root	packet u128 { char[0 ] body @lengthOf(int)//	t
+`two words` , @lengthOf(
+// c
+// `tick` ""quote"" 'q'
+body )// @lengthOf(
+Pad { float
+    @lengthOf( crc), zchar[ 255 ]roots `tab	here`/// triple
+,
+    }
+,float64 stringy `tab	here` ,
+    u x ,
+float32 _x	``,x_y_z// c
+@lengthOf(matchKey
+)
+    `it's` , @leftPad
+    // trailing space 
+    ( '0' ) char[ 65535
+    ]
+pack `// not a comment`,
+char
+repeatCount , u8x , charz `" ++ [233]%N ++ runes_of_ascii "` ,
+}packet
+metadata { zchar[
+3 ] As
+    @calculatedFrom(
+/// triple
+// @lengthOf(
+""x y"" )
+, @leftPad (
+' ') // trailing space 
+matchKey`two words` , // packet A { u8 x, }
+@tag(  3 // packet A { u8 x, }
+) BodyLength
+    { match zchar as int {
+    ""a	b"" :int } // `tick` ""quote"" 'q'
+, } , @tag( 7 ) // packet A { u8 x, }
+match	x
+as
+    A	{ //
+10 : metadata ,
+} , zchar[ //x
+3 ] chars ,}
+    root
+// `tick` ""quote"" 'q'
+// a // b
+packet u128{ char[]
+    Z9_
+    @calculatedFrom( ""a\\""// a // b
+)
+, repeat string lengthOf , string tag, u32 a1 /// triple
+`it's`
+    , }
+packet charz//
+{repeat
+chars
+, @leftPad ( '\x00')
+    u16//
+u
+`two words` , match
+    BodyLength as
+_x {
+7 :
+    zchar ,}  ,
+}")).
+Eval vm_compute in ("<<<M3695>>>" ++ check (runes_of_ascii "
+packet  int  // " ++ [128512]%N ++ runes_of_ascii " emoji
+  {@tag(
+
+    7) BodyLength {// @lengthOf(
+    	float32
+    f32a
+
+, char[	255 ] u8x@lengthOf(
+
+Z9_)`line1
+line2` 
+,
+
+repeat 
+char[  65535] 
+
+// `tick` ""quote"" 'q'
+  // a // b
+  	tag
+    `" ++ [233]%N ++ runes_of_ascii "` 
+,
+match
+
+    Header//x
+		as
+    int
+
+{
+
+""" ++ [128512]%N ++ runes_of_ascii """
+	// trailing space 
+	//	t
+	: //	t
+  	body
+,
+    [ 
+""" ++ [233]%N ++ runes_of_ascii "t" ++ [233]%N ++ runes_of_ascii """ ,
+""" ++ [128512]%N ++ runes_of_ascii """, ""packet"" ,
+	00, 4294967296 ,
+
+    255 ]
+
+    :int  [ 0  , ""a	b""
+	]
+
+    :
+Z9_, [  65535 	 // " ++ [128512]%N ++ runes_of_ascii " emoji
+      ] : tag 
+,  /// triple
+	""" ++ [233]%N ++ runes_of_ascii "t" ++ [233]%N ++ runes_of_ascii """  :  
+  // `tick` ""quote"" 'q'
+	options1 
+      //
+
+//x
+
+  }
+,
+}
+    , zchar[255
+	] 
+MetaDataX
+
+    @lengthOf( Z9_ )	`crlf
+line`
+, stringy 
+    /// triple
+    // @lengthOf(
+  	{
+
+    repeat
+    string 
+A , 	 // packet A { u8 x, }
+
+  crc
 
     {
-    Reject
-,
-repeat  string	f1
-	,
-	uint16
-    OrderId
-	,
+	zchar[
+	1
+	]
 
-    u8
-	Acct
-
-, int8	msgKind,
-    }
-root packet 
-Fill { u8
-    count
-
-,  char[] tag7
-    ,
-    zchar[	7] Acct ,u32
-OrderId ,u32
-    Note
-	@lengthOf(Body
-
-    ),
-match OrderId
-as  Body
-{106
-:	Cancel
-	,	196:	Reject ,74 :
-
-    Party
-,
-    75  :  Ack
-
-,
-	}
-,	}
-")).
-Eval vm_compute in ("<<<M1106>>>" ++ check (runes_of_ascii "options
-    {Pad //x
-= """" ;// trailing space 
-zchar =char[ 65535 ] Foo // c
-= 1; } packet asx {
-repeat char u128
-// " ++ [27880; 37322]%N ++ runes_of_ascii "
-//x
-, i16 Pad ,x @lengthOf( Packet )`
-`, @tag( 10 ) repeat float32	i64_
-`// not a comment`,
-@calculatedFrom("""") @calculatedFrom( """")
-@calculatedFrom(
-    ""it's"") repeat  BodyLength Foo ``, /// triple
-matchKey
-    As `say ""hi""` ,
-@rightPad
-( ' ' ) i8i8 BodyLength `" ++ [233]%N ++ runes_of_ascii "`, } packet Pad
-{@tag( 10 ) match
-o // a // b
-as zchar {[  ""abc""
-    ] : i8i8
-,
-""// no comment"" : T ,
-} ,
-u128  f32a`{ , }`,  @rightPad	( ) float64 Packet @lengthOf(	chars )  `it's`, @rightPad (
-'0' /// triple
-) repeat
-    zchar
-Packet `" ++ [28040; 24687; 31867; 22411]%N ++ runes_of_ascii "`
-, @tag( 00
-// a // b
-/// triple
-)@rightPad( '0' ) match u as	pack {""" ++ [28040; 24687]%N ++ runes_of_ascii """ : repeatCount ""abc"" : Foo  7:A ,
-""\" ++ [233]%N ++ runes_of_ascii """// packet A { u8 x, }
-:_x , } ,	As @lengthOf( int
-    )
-//
-// " ++ [128512]%N ++ runes_of_ascii " emoji
-, char[ 7 ] rootA
-    @lengthOf( leftPad)
-    `{ , }` , repeat f64 x , @calculatedFrom( """ ++ [128512]%N ++ runes_of_ascii """ )
-char[] u128
-,  }")).
-Eval vm_compute in ("<<<M881>>>" ++ check (runes_of_ascii "
-packet
-matchKey { @tag( // `tick` ""quote"" 'q'
-00	) x // " ++ [128512]%N ++ runes_of_ascii " emoji
-@calculatedFrom( ""a\\"" )
-    ,
-    } packet metadata{ @tag(	0
-) zchar[ 3] // " ++ [27880; 37322]%N ++ runes_of_ascii "
-asx @lengthOf( msg_type )
-, @tag( 65535 )zchar[ 1
-    ] Header ,@calculatedFrom(""`tick`"") @calculatedFrom( ""it's"" ) @lengthOf( i8i8
-    // trailing space 
-    ) f32a { repeat A{
-    repeat repeatCount
-// @lengthOf(
-// " ++ [128512]%N ++ runes_of_ascii " emoji
-T ,
-    },
-    uint8x { //	t
-int64 As`line1
-line2` ,	zchar[
-007 ]
-    //x
-    Pad // a // b
-`u8 x,`, repeat  trueish
-    // trailing space 
-    { repeat  char[ 1
-    ]
-i8i8 `crlf
-line` ,string_ metadata
-    `` , // a // b
-zchar ,	i8i8
-    int
-    `" ++ [28040; 24687; 31867; 22411]%N ++ runes_of_ascii "` ,} // " ++ [128512]%N ++ runes_of_ascii " emoji
-,
-} , },
-    @calculatedFrom( """"
-    // `tick` ""quote"" 'q'
-    ) zchar[
-007 ]o , } // trailing space 
-packet
-a1
-{
-i16 A @calculatedFrom( ""\" ++ [233]%N ++ runes_of_ascii """
-    // trailing space 
-    ) `line1
-line2` ,@leftPad( ) @tag( 7	) pack
-{ repeat As ,
-} , // c
-}")).
-Eval vm_compute in ("<<<M619>>>" ++ check (runes_of_ascii "  root packet repeatCount { @tag(10 )char[]
-options1 @calculatedFrom(// a // b
-""abc"" ) ,
-    repeat float32 trueish, int16 x`{ , }`  , }  packet o { char[ 007
-/// triple
-// packet A { u8 x, }
-] falsey `a\`, repeat float crc , match i64_ as roots // packet A { u8 x, }
-{ [ 4294967296 ,
-""// no comment""  ] : u8x ,	}
-    //x
-    , @rightPad(
-    '0' ) @leftPad ( ) char[] msg_type @calculatedFrom(
-""" ++ [233]%N ++ runes_of_ascii "t" ++ [233]%N ++ runes_of_ascii """
-    )
-// packet A { u8 x, }
-// " ++ [128512]%N ++ runes_of_ascii " emoji
-, match
-// a // b
-// " ++ [27880; 37322]%N ++ runes_of_ascii "
-tag	as x_y_z { """" :As}, f32 int
-    @calculatedFrom(""\" ++ [233]%N ++ runes_of_ascii """
-) , match u8x // trailing space 
-as repeatCount// c
-{ 42  : // packet A { u8 x, }
-calculatedFrom , [ 1 , 007
-    ] : T  } ,
-@lengthOf(
-Foo )u128
-{ pack
-    @lengthOf(zchar)  `u8 x,` ,}
-,
-i8 u , @lengthOf( Pad) match Header as As { [	00
-    ,
-"""",0123456789 , ""\n"" , 42 ]
-    // " ++ [128512]%N ++ runes_of_ascii " emoji
-    :repeatCount }, }
-")).
-Eval vm_compute in ("<<<M3520>>>" ++ check (runes_of_ascii "options {
-    LittleEndian = false;
-    StringPrefixLenType = u16;
-    ArrayPrefixLenType = u64;
-    FixedStringPadFromLeft = true;
-    FixedStringPadChar = ' ';
-}
-packet Logon {
-    u16 Tail,
-    repeat string x,
-    i16 count,
-    @leftPad('0') char[3] Note,
-}
-packet Fill {
-}
-packet Heartbeat {
-}
-packet Reject {
-    string msgKind,
-    repeat Logon,
-    InFlags25 {
-        repeat InPrice29 {
-            u8 price,
-            Logon,
-            repeat char[1] Note,
-        },
-        char[] x,
-        Fill,
-    },
-    repeat Heartbeat,
-}
-root packet Order {
-    InNote88 {
-        repeat i32 Acct,
-        repeat i16 clOrdID,
-        repeat Logon,
-    },
-    u16 tag7,
-    match tag7 as Body {
-        [14, 22] : Logon,
-        55 : Heartbeat,
-        93 : Reject,
-        13 : Fill,
-    },
-}
-")).
-Eval vm_compute in ("<<<M1244>>>" ++ check (runes_of_ascii "// packet A { u8 x, }
-options {
-As = ""// no comment"";
-    } options //x
-{
-    string_ = float32
-int =
-'\x00' body
-=// " ++ [27880; 37322]%N ++ runes_of_ascii "
-zchar[ 1//
-]
-    }
-    MetaData
-    trueish {char A , tag falsey `line1
-line2` ,
-    float32
-crc `{ , }` ,	float32 rootA `
-` , char[ 1	] As  ,
-body
-    asx ,} root
-packet u8x { zchar[
-0123456789 ] Packet @calculatedFrom(
-    ""it's"" ) ,@leftPad
-    (
 // c
-//	t
-)
-    // `tick` ""quote"" 'q'
-    Logon `" ++ [233]%N ++ runes_of_ascii "`
-    ,	string metadata	`" ++ [28040; 24687; 31867; 22411]%N ++ runes_of_ascii "` ,// trailing space 
-u8x // a // b
-x
-`{ , }` , match string_
-as metadata {	10 : float
-    // c
-    }
-    ,
-    options1
-    @calculatedFrom(""" ++ [28040; 24687]%N ++ runes_of_ascii """
-    )
-,@rightPad ('0' )
-string
-packetx// " ++ [27880; 37322]%N ++ runes_of_ascii "
-,
-char[
-007]
-x_y_z
-    `a\` ,@rightPad ( ' ' ) chars { int32 o// c
-,float @calculatedFrom( ""packet"" )`line1
-line2`, }
-,
-}
-")).
-Eval vm_compute in ("<<<M508>>>" ++ check (runes_of_ascii "packet Header {
-    @rightPad(  '0' // `tick` ""quote"" 'q'
-)
-uint8x @calculatedFrom( ""a	b""
-)  , char[]u128
-    // @lengthOf(
-    @calculatedFrom( ""// no comment"" ) , @tag(//
-0123456789
-) char[ 255
-]	lengthOf@calculatedFrom(
-"""" )
-    `" ++ [28040; 24687; 31867; 22411]%N ++ runes_of_ascii "` ,x_y_z
-, i32
-    x_y_z ``
-    ,repeat  char[007] rootA , float32 msg_type @calculatedFrom(""a	b"" )`{ , }`
-,// " ++ [27880; 37322]%N ++ runes_of_ascii "
-@calculatedFrom(""x y"" ) @tag(255
-    // @lengthOf(
-    )
-    match i8i8 as A {"""" : f32a
-,
-} , matchKey {MetaDataX Header , repeatCount `say ""hi""`
-    ,	char[ 0] MetaDataX
-@lengthOf( len
-    )`" ++ [233]%N ++ runes_of_ascii "`// @lengthOf(
-,
-}
-    // `tick` ""quote"" 'q'
-    , zchar[7]pack @calculatedFrom( ""\n"" ) , }packet // packet A { u8 x, }
-uint8x {
-uint64 uint8x @calculatedFrom( ""abc""
-    )
+	uint8x
+
 , }
-")).
-Eval vm_compute in ("<<<M1353>>>" ++ check (runes_of_ascii "root  packet uint8x
-    { }options {
-    o	=
-//x
-//
-' '
-; x_y_z= 0123456789 stringy= ""packet"" }
-packet
-    A
-    { match falsey as string_ {
-""" ++ [28040; 24687]%N ++ runes_of_ascii """	: packetx , 0 :BodyLength , } // @lengthOf(
-,
-float32// " ++ [27880; 37322]%N ++ runes_of_ascii "
-string_ @lengthOf(
-    a1) ,
-trueish @calculatedFrom( ""abc"" ),
-@leftPad //	t
-(  '0' )string matchKey
-    @lengthOf( x_y_z )  ``
-,
-leftPad {trueish @calculatedFrom(""a\""b"" ) // c
-,}, // `tick` ""quote"" 'q'
-@tag( 1
-    // trailing space 
-    )repeat float64 calculatedFrom`{ , }` , @leftPad
-    // @lengthOf(
-    (
-'\x00' )match Z9_ //	t
-as
-crc
-    { [0]  : a1 , //
-} , _x @lengthOf( T )// trailing space 
-, x_y_z `" ++ [28040; 24687; 31867; 22411]%N ++ runes_of_ascii "`
-// c
-// `tick` ""quote"" 'q'
-,
-repeat char[] Z9_  , }
-// " ++ [27880; 37322]%N ++ runes_of_ascii "
-")).
-Eval vm_compute in ("<<<M42>>>" ++ check (runes_of_ascii "packet Header { @lengthOf( BodyLength)string body	@lengthOf(	zchar	)  `two words` , @lengthOf( rootA )i32 metadata `it's` ,
-    @tag( 00 ) // trailing space 
-msg_type@lengthOf( // " ++ [27880; 37322]%N ++ runes_of_ascii "
-As )  ,
-int { repeat string
-//
-//	t
-u128 `" ++ [233]%N ++ runes_of_ascii "`,
-    match MetaDataX as packetx {[ 1	,0] : MetaDataX
-    , ""{,}"" :calculatedFrom ,} ,
-    // trailing space 
-    match asx as Logon  {
-7 :uint8x  , 00 : x_y_z
-,
-    ""\" ++ [233]%N ++ runes_of_ascii """
-    : o ,""" ++ [233]%N ++ runes_of_ascii "t" ++ [233]%N ++ runes_of_ascii """
-:chars /// triple
-, } , body
-// `tick` ""quote"" 'q'
-// a // b
-i64_ `crlf
-line` , },	a1
-    `line1
-line2`  ,
-// `tick` ""quote"" 'q'
-// a // b
-chars `// not a comment`	,@tag( 7
-    )
-leftPad charz	, int64 a1 @calculatedFrom(
-""\n""
-)  ,
-}")).
-Eval vm_compute in ("<<<M789>>>" ++ check (runes_of_ascii "packet roots { //	t
-@calculatedFrom( ""packet"" )
-f32 roots
-    @lengthOf( // " ++ [27880; 37322]%N ++ runes_of_ascii "
-options1 ) `tab	here`,	@lengthOf( Foo )
-    match BodyLength
-    as u128
-//
-// `tick` ""quote"" 'q'
-{""" ++ [233]%N ++ runes_of_ascii "t" ++ [233]%N ++ runes_of_ascii """
-:x_y_z
-, 1
-:leftPad /// triple
-,
-[ ""packet"" ] :	crc 007 : uint8x [ ""\n"" , 00
-,
-// @lengthOf(
+
+,  uint16	Packet @calculatedFrom(	""a	b"" )
+,	len
+
+    @calculatedFrom(
+""a	b"" ) 
+`two words`,
+
+} ,zchar[ 
+255 ]
+As `` , i16// `tick` ""quote"" 'q'
+    	calculatedFrom ,
+@tag(
+	42  // `tick` ""quote"" 'q'
+	)
+    repeat
+
+    x_y_z
+	`two words`
+
 // " ++ [128512]%N ++ runes_of_ascii " emoji
-10
-    // `tick` ""quote"" 'q'
-    , // @lengthOf(
-65535 ,
-    42 ,""a\\"" ,00 ]	:
-leftPad ,
-    }	,
-} options { f32a = 4294967296
-;
-// " ++ [27880; 37322]%N ++ runes_of_ascii "
-//	t
-Header	= '0'	} // @lengthOf(
-options { Logon= zchar[ 255] ; // `tick` ""quote"" 'q'
-metadata =
-""it's""; leftPad
-// trailing space 
-// a // b
-=
-""CRC32""// `tick` ""quote"" 'q'
-;
-Pad =
-""""
-; }")).
-Eval vm_compute in ("<<<M4419>>>" ++ check (runes_of_ascii "// packet A { u8 x, }
-MetaData f32a {
-    int64 i8i8,
-    u64 Packet ``,
-    falsey _x,
-    tag roots ``,
-    uint32 Foo `two words`,
-    char[] asx,
+
+  ,
+
+    uint8
+lengthOf
+    ,
+@tag(
+0) u128,
+} ")).
+Eval vm_compute in ("<<<M3727>>>" ++ check (runes_of_ascii "//	t
+MetaData i8i8 {
+    char packetx `
+        `,// c
+    char[] Header `" ++ [233]%N ++ runes_of_ascii "`,
+    u32 options1,
+    Header i8i8 `two words`,
 }
 
-packet options1 {
-    char[00] u128,
-    @calculatedFrom(""`tick`"")
-    Header @calculatedFrom(""1""),
-    @leftPad()
-    match u as o {
-        [""a\\""] : stringy,
-        ""abc"" : f32a,
+root packet Header {
+    match falsey as pack {
+        // c
+        ""CRC32"" : crc,
     },
-    f64 x_y_z @lengthOf(o),
-    repeat char[00] int `
-    `,
-    char[] options1 `{ , }`,// `tick` ""quote"" 'q'
-    zchar[00] charz,
-    char[] MetaDataX `a\`,
-    match packetx as zchar {
-        [10, 1] : i8i8,
-        ""CRC32"" : Logon,
+    o rootA,
+    match rootA as u {
+        [255, ""\n""] : metadata,
+        42 : uint8x,
+        [""" ++ [128512]%N ++ runes_of_ascii """] : float,
+        // " ++ [128512]%N ++ runes_of_ascii " emoji
+        ""\n"" : u,
+        3 : MetaDataX,
     },
-}")).
-Eval vm_compute in ("<<<M4203>>>" ++ check (runes_of_ascii "packet zchar {
-    i32 zchar @calculatedFrom(""abc"") `a\`,
-    Pad Logon `tab	here`,
-    @tag(0)
-    Packet {
-        x_y_z matchKey,
-        float64 Logon @lengthOf(uint8x),
+    @leftPad('\x00')
+    float64 Packet @calculatedFrom(""abc"") `say ""hi""`,
+    repeat u8x,
+    @lengthOf(msg_type)
+    uint8x {
+        packetx repeatCount,
+        asx @calculatedFrom(""x y""),
+        zchar[007] u `say ""hi""`,
     },
-    packetx i64_ `" ++ [28040; 24687; 31867; 22411]%N ++ runes_of_ascii "`,
-    repeat char[] As `two words`,
-}
-
-MetaData packetx {
-    options1 Z9_ `crlf
-        line`,
-    char[] pack,
-    string charz `// not a comment`,
-    char[] string_,
-    asx int `u8 x,`,
+    repeat i16 calculatedFrom `
+        `,
+    int16 T @calculatedFrom(""a	b""),
+    @rightPad()
+    char[00] Foo @lengthOf(pack) `tab	here`,
+    uint8x `" ++ [28040; 24687; 31867; 22411]%N ++ runes_of_ascii "`,
 }
 
 options {
-    rootA = ""a\\""
-    leftPad = ' ';
-    leftPad = '\x00';
+    x_y_z = 255;
+    metadata = ""CRC32"";
+    leftPad = ""{,}"";
+    u128 = true
+    tag = string;
+    // " ++ [128512]%N ++ runes_of_ascii " emoji
+    // a // b
 }
 
-MetaData i8i8 {
-    charz zchar,
-    string chars,
-    int8 repeatCount `it's`,
+root packet x_y_z {
+    @lengthOf(body)
+    int32 Z9_ @calculatedFrom(""{,}"") `" ++ [28040; 24687; 31867; 22411]%N ++ runes_of_ascii "`,
 }")).
-Eval vm_compute in ("<<<M208>>>" ++ check (runes_of_ascii "packet i64_
-    {} packet
-    crc {
-} options
-{ }root packet
-charz {} packet //
-trueish{ repeat char[
-    255] lengthOf `" ++ [28040; 24687; 31867; 22411]%N ++ runes_of_ascii "` , zchar[
+Eval vm_compute in ("<<<M4388>>>" ++ check (runes_of_ascii "packet a1 {
+    chars {
+        len {
+            Logon len,
+            string string_,
+            u8x @calculatedFrom(""a\\""),
+            repeat float {
+                body int `" ++ [233]%N ++ runes_of_ascii "`,
+            },
+        },
+        repeat As {
+            repeat i64_ f32a `{ , }`,
+            A @calculatedFrom(""\" ++ [233]%N ++ runes_of_ascii """),
+            int64 float,
+        },
+        match x as chars {
+            [
+                """ ++ [128512]%N ++ runes_of_ascii """, 007, ""x y"", 00, ""x y"",
+                10
+            ] : string_,
+            10 : float,
+            4294967296 : x_y_z,
+            [
+                """ ++ [233]%N ++ runes_of_ascii "t" ++ [233]%N ++ runes_of_ascii """, 10, 42, """ ++ [28040; 24687]%N ++ runes_of_ascii """, 0123456789,
+                42, 10
+            ] : T,
+            00 : leftPad,
+        },
+        crc @lengthOf(u128),
+    },
+    char[] packetx @calculatedFrom(""abc"") `line1
+    line2`,
+    int32 repeatCount @lengthOf(Foo) `it's`,
+    match Packet as string_ {
+        42 : f32a,
+        255 : MetaDataX,
+        1 : i8i8,
+        """" : a1,
+        //	t
+    },
+    _x @lengthOf(chars),
+}")).
+Eval vm_compute in ("<<<M810>>>" ++ check (runes_of_ascii "root
+    packet
+    asx // trailing space 
+{
+    trueish lengthOf
+`line1
+line2`
+,	@rightPad (	)
+@rightPad(  '0') char[] a1 , } packet metadata {
+stringy `say ""hi""` , @lengthOf(
+int ) match u8x as
+    zchar {
+""" ++ [128512]%N ++ runes_of_ascii """ : repeatCount ,00
+: Header
+, 4294967296 : As ,
+    //	t
+    255
+:
+    //x
+    u8x
+,
+[ //	t
+0123456789 ]
+    :
+    // packet A { u8 x, }
+    pack// `tick` ""quote"" 'q'
+, } ,
+@calculatedFrom( """ ++ [233]%N ++ runes_of_ascii "t" ++ [233]%N ++ runes_of_ascii """ ) repeat x_y_z{ u16 len `say ""hi""`,} , @tag( 007 )@leftPad (
+    '0' // @lengthOf(
+)
+    match
+options1 as float {
+[""CRC32"" , ""CRC32""	]: x_y_z
+,0:
+    tag 255:
+    Logon , //	t
+42 : string_
+    } // c
+,	repeat zchar[ 007 ]u
+    ,  T {//x
+char[] asx ,
+    match trueish
+as A{ ""1""
+: tag , [  ""{,}""  , 7 ]:
+    Logon
+    , 4294967296 :
+    calculatedFrom ,""it's"" : uint8x, }, }	,@leftPad
+    ( )
+match x_y_z as
+Packet { [ """ ++ [28040; 24687]%N ++ runes_of_ascii """	,
+4294967296
+] :int	,
+    } , char[]
+int  @calculatedFrom( ""\" ++ [233]%N ++ runes_of_ascii """	) //	t
+`" ++ [233]%N ++ runes_of_ascii "`, }")).
+Eval vm_compute in ("<<<M1029>>>" ++ check (runes_of_ascii "packet
+T  { }
+    root packet BodyLength{ match falsey
+as MetaDataX {
+[ 4294967296 ]	: _x ,// @lengthOf(
+00: options1 [
+    007  , // `tick` ""quote"" 'q'
+65535 , ""CRC32"" // " ++ [128512]%N ++ runes_of_ascii " emoji
+] : i64_ ,
+} , @leftPad
+()
+    metadata `doc` //x
+,
+Z9_ { repeat  float32	lengthOf
+, packetx { uint16  zchar@calculatedFrom(""" ++ [28040; 24687]%N ++ runes_of_ascii """) ,
+}
+,
+} , @tag(
+7) uint32
+    metadata@calculatedFrom( ""{,}""
+) , char[  65535 ]string_ `a\`
+,	}packet zchar
+{trueish
+    `crlf
+line`
+    ,	@tag(00 ) float Pad// c
+, int16 //x
+options1 @calculatedFrom( ""a\\"" )	, @calculatedFrom( ""x y""
+)  @lengthOf(string_ )metadata @calculatedFrom( ""`tick`""
+)`crlf
+line` , crc
+    // trailing space 
+    packetx `crlf
+line` ,	metadata
+// a // b
+// a // b
+packetx`// not a comment`
+, i8 u128
+    //	t
+    @lengthOf(	int ) , //	t
+@rightPad
+    (' '
+)Header @lengthOf( leftPad ) `doc` ,i8i8 Header``
+    , }")).
+Eval vm_compute in ("<<<M164>>>" ++ check (runes_of_ascii "packet
+    Logon
+{
+    repeat	char
+MetaDataX `say ""hi""`,
+@lengthOf(
+packetx) char[] repeatCount// `tick` ""quote"" 'q'
+`doc` , @leftPad (
+    '0' )@tag(
+7 ) Header@calculatedFrom(
+    """" // " ++ [128512]%N ++ runes_of_ascii " emoji
+)	,
+@lengthOf(
+    /// triple
+    MetaDataX
+) match // trailing space 
+x
+//
+// trailing space 
+as Header
+// trailing space 
 //	t
-/// triple
-00 // a // b
-]x`it's` ,/// triple
-repeat	char[]
-    // `tick` ""quote"" 'q'
-    Packet `say ""hi""` , @calculatedFrom(
-""x y"" // " ++ [27880; 37322]%N ++ runes_of_ascii "
-) char[ 1] lengthOf, lengthOf`crlf
-line` ,	match charz as MetaDataX { ""a	b""
-// " ++ [27880; 37322]%N ++ runes_of_ascii "
+{ ""x y"" : u8x // trailing space 
+,
+""" ++ [128512]%N ++ runes_of_ascii """
+: /// triple
+charz , """ ++ [233]%N ++ runes_of_ascii "t" ++ [233]%N ++ runes_of_ascii """
+:// packet A { u8 x, }
+_x,[ 3 , // " ++ [27880; 37322]%N ++ runes_of_ascii "
+00
+    ] :  uint8x , ""it's"" //	t
+:// `tick` ""quote"" 'q'
+rootA[
+    00
+    ,  65535//x
+] :
+    zchar }
+    ,@calculatedFrom( ""// no comment"" )int32 i64_,
+repeat// " ++ [128512]%N ++ runes_of_ascii " emoji
+body {zchar[
+    10  ]
+BodyLength `line1
+line2` , lengthOf Logon
+, // @lengthOf(
+repeat
+    float64	i8i8 ,char[0123456789]leftPad // `tick` ""quote"" 'q'
+`
+` ,	}
+    ,  repeat char[ 255
+    //
+    ] a1`" ++ [28040; 24687; 31867; 22411]%N ++ runes_of_ascii "`, } 	 ")).
+Eval vm_compute in ("<<<M130>>>" ++ check (runes_of_ascii "
+packet
+    o {// trailing space 
+body {
+string options1@lengthOf(int ) ,
+    // " ++ [27880; 37322]%N ++ runes_of_ascii "
+    repeat u
+{ match  tag
+    as
+BodyLength { [	""" ++ [128512]%N ++ runes_of_ascii """
+, /// triple
+""`tick`"" ,
+    // @lengthOf(
+    ""packet"" ,
+""a\\"" ,65535
+, 0123456789 // trailing space 
+]: u
 // `tick` ""quote"" 'q'
-: uint8x
-    ""\n"" : calculatedFrom } , @tag(	10
-) float64 i8i8 @calculatedFrom( """ ++ [128512]%N ++ runes_of_ascii """ ) `say ""hi""` ,
-@rightPad(
-'\x00' )
-i32
-Foo`it's`	,
+// c
+""a\\"" : rootA ,
+    """ ++ [128512]%N ++ runes_of_ascii """: Foo 3
+:  uint8x ,	} , match leftPad as // `tick` ""quote"" 'q'
+a1
+    {1 : //	t
+Header
+,
+}
+, },
+    }
+,
+    chars , repeatCount body
+//	t
+// " ++ [128512]%N ++ runes_of_ascii " emoji
+`a\` ,}	packet metadata {
+@rightPad ('0' // " ++ [27880; 37322]%N ++ runes_of_ascii "
+)
+@leftPad
+( //x
+'0' ) @calculatedFrom( ""packet"") match o as	Logon{ """"
+: A, [
+    007// c
+, 7  , 1
+, """"// trailing space 
+,  42, ""a	b""]  :	A	""it's"" :
+    _x,  },@lengthOf(//x
+Header
+)char[  3 ] i8i8@lengthOf( int )	,char[]Packet @calculatedFrom( ""a	b"")
+, leftPad ,
+    }packet charz { }")).
+Eval vm_compute in ("<<<M886>>>" ++ check (runes_of_ascii "// `tick` ""quote"" 'q'
+root
+packet // " ++ [27880; 37322]%N ++ runes_of_ascii "
+MetaDataX {	zchar[ 10 ] len`// not a comment`
+, // " ++ [128512]%N ++ runes_of_ascii " emoji
+repeat matchKey
+    // " ++ [128512]%N ++ runes_of_ascii " emoji
+    { u // a // b
+falsey `tab	here`  ,	}, @tag(0123456789 ) string u8x ,
+zchar[ 3 ]
+    msg_type @lengthOf(
+As ) , @rightPad // `tick` ""quote"" 'q'
+( ) char	Packet , @rightPad (	)f64 u
+    // `tick` ""quote"" 'q'
+    , @lengthOf( uint8x ) @lengthOf(
+    x_y_z )
+@lengthOf(float ) Logon@lengthOf(pack	)
+`a\`  ,@lengthOf( Logon ) char[]
+    // a // b
+    rootA
+@calculatedFrom( // " ++ [128512]%N ++ runes_of_ascii " emoji
+""1"" ) ,
+int64
+    stringy @lengthOf( zchar)`{ , }`,
+match
+// a // b
+// " ++ [27880; 37322]%N ++ runes_of_ascii "
+string_ as As { 7 :
+metadata
+""x y""// " ++ [128512]%N ++ runes_of_ascii " emoji
+: packetx ,""" ++ [233]%N ++ runes_of_ascii "t" ++ [233]%N ++ runes_of_ascii """  : repeatCount ,
+} ,
+    // @lengthOf(
+    }	root packet matchKey { } packet charz
+{  }
+")).
+Eval vm_compute in ("<<<M97>>>" ++ check (runes_of_ascii "options
+// trailing space 
+// " ++ [27880; 37322]%N ++ runes_of_ascii "
+{Foo=
+""it's"" lengthOf = int8 falsey /// triple
+= 7 ;a1
+= false
+; } MetaData repeatCount
+//x
+//x
+{ T
+    repeatCount,
+    u8x msg_type `// not a comment`
+    ,
+    repeatCount T	, } packet repeatCount{  @tag( 007 ) i64_ As	,
+}
+root packet	packetx{
+    string
+//	t
+// " ++ [128512]%N ++ runes_of_ascii " emoji
+T @calculatedFrom(""{,}""//
+)
+    , repeat zchar[
+    4294967296
+    ] x  , @tag(
+42 ) @lengthOf( lengthOf
+)/// triple
+@calculatedFrom( ""`tick`""	)repeat u16 u128 `say ""hi""` // trailing space 
+, // trailing space 
+@rightPad ( ) @tag( 255 )
+repeat uint8x Logon
+    // packet A { u8 x, }
+    ,
+    repeat zchar[ 007 ]Logon`a\`
+    ,@rightPad(
+    // `tick` ""quote"" 'q'
+    '0' ) // @lengthOf(
+string
+falsey ,
 }
 ")).
-Eval vm_compute in ("<<<M440>>>" ++ check (runes_of_ascii "packet chars	{
-@calculatedFrom(
-""abc"" ) repeat uint64
-Pad`" ++ [233]%N ++ runes_of_ascii "` ,
-    uint8  len , asx@lengthOf( _x) ,
-    options1 `tab	here` ,
-@lengthOf(  i64_
-) zchar`it's`
-, @tag( 007  )metadata
-,	char[]Foo ,
-    // packet A { u8 x, }
-    } // @lengthOf(
-options { charz = ""\" ++ [233]%N ++ runes_of_ascii """ ; metadata = string;Z9_ = ""it's""
-zchar = u8 }options{
-string_ =  """ ++ [28040; 24687]%N ++ runes_of_ascii """
-;msg_type // packet A { u8 x, }
-=42
-    ;Foo /// triple
-= 0123456789;
-o = int64 ;}	options{i8i8
-= zchar[ 1 ] Foo = 00;
-leftPad = // c
-uint64 Foo =  int64 }")).
-Eval vm_compute in ("<<<M187>>>" ++ check (runes_of_ascii "root packet A
-{  match
-u8x as body {
-7:
-    BodyLength // trailing space 
-, 007 : _x , 10 :
-    Header},// `tick` ""quote"" 'q'
-@lengthOf( pack ) tag @lengthOf( rootA  )
-,match a1 as  calculatedFrom
-{ 1 :
-string_
-, } ,  @lengthOf( x_y_z
-) a1,
-    @lengthOf(	MetaDataX
-) int ,} packet
-repeatCount { uint64 string_ `two words` , } options	{chars
-    = false; float
-//	t
-// " ++ [27880; 37322]%N ++ runes_of_ascii "
-= """ ++ [28040; 24687]%N ++ runes_of_ascii """ crc=u8 a1 = 1;
-} MetaData // a // b
-leftPad {
-    u128 Header , } options {
-    }
+Eval vm_compute in ("<<<M3648>>>" ++ check (runes_of_ascii "// " ++ [128512]%N ++ runes_of_ascii " emoji
+packet u128 {
+    repeat MetaDataX,
+    int64 leftPad,//	t
+    @lengthOf(matchKey)
+    //
+    @calculatedFrom(""" ++ [28040; 24687]%N ++ runes_of_ascii """)
+    match T as Header {
+        255 : repeatCount,
+        ""it's"" : roots,
+    },
+}
 
+//
+//	t
+packet MetaDataX {
+    repeat chars asx `tab	here`,
+    repeat o {
+        repeat _x {
+            repeat uint32 charz `u8 x,`,
+            zchar[42] leftPad @calculatedFrom(""" ++ [28040; 24687]%N ++ runes_of_ascii """) `doc`,/// triple
+        },
+    },
+    int16 u @lengthOf(f32a) `tab	here`,
+    match f32a as i64_ {
+        00 : len,
+    },
+}
+
+MetaData pack {
+    f32a packetx,
+    zchar[10] Header `tab	here`,
+    zchar[007] string_ `crlf
+        line`,
+    char[] matchKey,
+    float64 float,
+}")).
+Eval vm_compute in ("<<<M3263>>>" ++ check (runes_of_ascii "// top
+options // c0
+{ // c1
+chars // c2
+= // c3
+""a\\"" // c4
+} // c5
+packet // c6
+Z9_ // c7
+{ // c8
+match // c9
+BodyLength // c10
+as // c11
+roots // c12
+{ // c13
+""" ++ [28040; 24687]%N ++ runes_of_ascii """ // c14
+: // c15
+falsey // c16
+, // c17
+00 // c18
+: // c19
+u128 // c20
+0 // c21
+: // c22
+len // c23
+, // c24
+007 // c25
+: // c26
+f32a // c27
+} // c28
+, // c29
+@tag( // c30
+3 // c31
+) // c32
+@calculatedFrom( // c33
+""`tick`"" // c34
+) // c35
+@leftPad // c36
+( // c37
+' ' // c38
+) // c39
+string // c40
+asx // c41
+, // c42
+string // c43
+u // c44
+@lengthOf( // c45
+options1 // c46
+) // c47
+, // c48
+float32 // c49
+i64_ // c50
+@calculatedFrom( // c51
+""a\""b"" // c52
+) // c53
+, // c54
+} // c55
+")).
+Eval vm_compute in ("<<<M3490>>>" ++ check (runes_of_ascii "// top
+packet // c0
+MDSnapshotZZ { // c2a
+  // c2b
+u8 a
+    // c4
+, } // c6
+packet // c7a
+  // c7b
+OrderACK // c8a
+  // c8b
+{ u16 b
+    // c11
+, // c12a
+  // c12b
+} // c13
+packet
+    // c14
+HTTPServerInfo {
+    // c16
+string s
+    // c18
+, } root // c21a
+  // c21b
+packet // c22
+FIXMsg // c23
+{ // c24
+u8 // c25
+KType , MDSnapshotZZ , repeat // c30a
+  // c30b
+OrderACK
+    // c31
+, // c32a
+  // c32b
+match
+    // c33
+KType // c34a
+  // c34b
+as
+    // c35
+Body // c36
+{ 1 : // c39
+HTTPServerInfo // c40
+, // c41
+2 // c42
+: // c43
+OrderACK // c44a
+  // c44b
+, // c45
+} // c46a
+  // c46b
+, // c47a
+  // c47b
+} // c48a
+  // c48b
+")).
+Eval vm_compute in ("<<<M4108>>>" ++ check (runes_of_ascii "packet crc {
+    @rightPad('0')
+    char[7] matchKey @calculatedFrom(""{,}""),
+}
+
+packet x_y_z {
+    @calculatedFrom(""a\""b"")
+    T {
+        Header {
+            // packet A { u8 x, }
+            lengthOf packetx `// not a comment`,
+            A i8i8 `crlf
+            line`,
+            string o `line1
+            line2`,
+            string_ @lengthOf(tag) `line1
+            line2`,
+        },
+    },
+    match lengthOf as Z9_ {
+        ""\" ++ [233]%N ++ runes_of_ascii """ : A,
+    },
+    match rootA as matchKey {
+        [""`tick`"", ""x y""] : Packet,
+    },//x
+    repeat zchar[1] _x,
+    char[] msg_type,
+    A rootA,
+}//")).
+Eval vm_compute in ("<<<M20>>>" ++ check (runes_of_ascii "// " ++ [128512]%N ++ runes_of_ascii " emoji
+MetaData o
+    { } packet uint8x { uint8
+    // c
+    u128  @lengthOf(
+body  )  `// not a comment` , @calculatedFrom( ""1"" ) options1{
+    repeat Foo crc , zchar[ 255] MetaDataX
+    /// triple
+    @calculatedFrom( ""\" ++ [233]%N ++ runes_of_ascii """ ) , Foo { char[ 1 ] msg_type ,
+    } ,
+    },
+float64
+    falsey @lengthOf(
+f32a )
+,
+    match
+// packet A { u8 x, }
+//
+BodyLength
+    as f32a
+{ """ ++ [128512]%N ++ runes_of_ascii """
+: x_y_z ,	""" ++ [128512]%N ++ runes_of_ascii """ :
+    BodyLength ,""" ++ [28040; 24687]%N ++ runes_of_ascii """ : Foo
+,
+    } , @lengthOf( lengthOf ) repeat len , // " ++ [128512]%N ++ runes_of_ascii " emoji
+crc float`line1
+line2`
+    , }MetaData repeatCount {
+tag x, //	t
+}
+")).
+Eval vm_compute in ("<<<M1347>>>" ++ check (runes_of_ascii "packet Packet{
+    //x
+    int64 u128 @calculatedFrom(	""it's"" )
+,
+// trailing space 
+// @lengthOf(
+@lengthOf( _x )
+@leftPad (
+) match rootA  as
+calculatedFrom{	""1"" :leftPad ,[
+    42 , """ ++ [128512]%N ++ runes_of_ascii """ ] :pack[ ""it's"",
+3
+//x
+// `tick` ""quote"" 'q'
+, """", """ ++ [128512]%N ++ runes_of_ascii """
+] : As
+, } , char[
+0
+    //
+    ] matchKey `" ++ [233]%N ++ runes_of_ascii "` , u64 lengthOf ,
+@lengthOf( zchar ) // c
+char[ 7
+// " ++ [27880; 37322]%N ++ runes_of_ascii "
+//
+]
+rootA
+@lengthOf( u ),  }MetaData int { u16 // @lengthOf(
+Pad , }	packet stringy {zchar[// `tick` ""quote"" 'q'
+1 ] msg_type`tab	here` , //	t
+} options { x = 00
+    }")).
+Eval vm_compute in ("<<<M675>>>" ++ check (runes_of_ascii "packet charz{
+@rightPad
+    // a // b
+    (
+// trailing space 
+//x
+'0'
+)  repeat float32 options1 , @tag(
+00
+) zchar[007
+    // a // b
+    ]
+lengthOf , @calculatedFrom(
+"""" )
+    i8 MetaDataX
+, repeat
+char[] string_ ,// packet A { u8 x, }
+match u	as
+// a // b
+// `tick` ""quote"" 'q'
+string_ {
+    [ ""\n"" , 0123456789
+,	""it's"" , 0123456789,3
+    , ""a\""b"" ]
+    : packetx,""" ++ [28040; 24687]%N ++ runes_of_ascii """ : _x ,""a\""b""// " ++ [128512]%N ++ runes_of_ascii " emoji
+: // " ++ [128512]%N ++ runes_of_ascii " emoji
+roots 65535 :crc , },@tag( 7
+)
+uint8x
+u8x
+    // " ++ [27880; 37322]%N ++ runes_of_ascii "
+    ,
+Logon charz  `{ , }` , }
+")).
+Eval vm_compute in ("<<<M1262>>>" ++ check (runes_of_ascii "packet MetaDataX {@tag( // @lengthOf(
+3  ) int16//	t
+Pad `line1
+line2`  ,
+    @lengthOf( i8i8 ) match u8x
+as Packet { 1: u128
+    , ""`tick`""
+:
+matchKey, },@lengthOf(
+packetx ) zchar[ 4294967296 ] Z9_// @lengthOf(
+@calculatedFrom(
+    // a // b
+    ""abc""	)  , //	t
+@tag( 255)
+    int64
+i64_ @lengthOf( Packet )  , repeat uint8 u128
+    ,As metadata // @lengthOf(
+, @lengthOf(
+    asx	)
+@lengthOf(  A ) //	t
+@calculatedFrom( ""CRC32"") //
+u8 options1 `say ""hi""`
+    , }
 ")).
 Eval vm_compute in ("<<<M970>>>" ++ check (runes_of_ascii "packet
     x_y_z
@@ -1286,422 +1298,407 @@ falsey _x
     3 ]// `tick` ""quote"" 'q'
 Z9_ , }
 ")).
-Eval vm_compute in ("<<<M3791>>>" ++ check (runes_of_ascii "MetaData rootA {
-    char[42] body `tab	here`,
-    string pack,
-    zchar[65535] A `it's`,
-    i64_ Pad,
-}
-
-MetaData leftPad {
-    int16 u,
-}
-
-packet trueish {
+Eval vm_compute in ("<<<M3888>>>" ++ check (runes_of_ascii "packet i64_ {
+    @lengthOf(Foo)
+    // `tick` ""quote"" 'q'
+    @lengthOf(calculatedFrom)
+    o @calculatedFrom(""{,}""),
+    uint16 lengthOf @calculatedFrom(""" ++ [128512]%N ++ runes_of_ascii """),
+    char[007] trueish,
     @tag(00)
-    char[42] MetaDataX `crlf
-        line`,
-    @lengthOf(asx)
-    chars charz,
-    @rightPad('0')
-    @lengthOf(a1)
-    char[] Packet @calculatedFrom(""x y"") `crlf
-        line`,
-    len i8i8,
-    @rightPad('\x00')
-    options1 {
-        x @lengthOf(Z9_),
-    },
+    @tag(007)
+    // a // b
+    // " ++ [128512]%N ++ runes_of_ascii " emoji
+    float @calculatedFrom(""\n""),
+    charz A,
+    Logon @calculatedFrom(""// no comment"") `
+        `,
+    @lengthOf(msg_type)
+    BodyLength As `a\`,
+    zchar[10] zchar @calculatedFrom("""") `doc`,
 }")).
-Eval vm_compute in ("<<<M3612>>>" ++ check (runes_of_ascii "options {
-    LittleEndian = false;
-    StringPrefixLenType = u8;
-    ArrayPrefixLenType = u16;
-    FixedStringPadFromLeft = false;
-}
-
-packet Heartbeat {
-    u8 seqNo,
-    @rightPad('\x00')
-    char[8] x,
-}
-
-root packet Trade {
-    repeat Heartbeat,
-    float32 OrderId,
-    i64 Acct,
-    u16 Qty,
-    u16 clOrdID,
-    match clOrdID as Body {
-        131 : Heartbeat,
-    },
-    u16 sym @calculatedFrom(""CR\
-        C32""),
-}")).
-Eval vm_compute in ("<<<M220>>>" ++ check (runes_of_ascii "
-packet	float // a // b
-{ // c
-}
-packet u128 { @calculatedFrom(	""1"") asx x_y_z `" ++ [28040; 24687; 31867; 22411]%N ++ runes_of_ascii "` ,}
-    root packet
-    u8x { repeat uint8x	T
-, }
-packet leftPad
-    {
-i64_,@leftPad ( '0' )
-repeat	tag
-,repeat  uint8x  {	matchKey @calculatedFrom( ""abc""
-    ) , string charz ,
-    }// trailing space 
-,@rightPad
-( )zchar[ 10] charz
-    @calculatedFrom( """ ++ [128512]%N ++ runes_of_ascii """ )	`// not a comment` , // trailing space 
-}
-// @lengthOf(
-")).
-Eval vm_compute in ("<<<M3900>>>" ++ check (runes_of_ascii "  packet	// a // b
-
-  zchar {
-    char[]
-    trueish @calculatedFrom(""CRC32""  // `tick` ""quote"" 'q'
-  	) ,char[]
-
+Eval vm_compute in ("<<<M621>>>" ++ check (runes_of_ascii "packet As {@calculatedFrom( """ ++ [28040; 24687]%N ++ runes_of_ascii """
+    ) repeat float { BodyLength chars `doc`
+,
+    }
+, repeat char[ 255 ]packetx , string
+    rootA `line1
+line2` , uint8 i64_ `line1
+line2` ,
+@lengthOf(_x )// trailing space 
+BodyLength
+, stringy{
     /// triple
-      MetaDataX , u8x 
-@lengthOf( 
-leftPad
+    repeat zchar[  0123456789
+] i8i8 , //
+} ,
+match
+f32a
+as
+u128
+    { [
+    ""// no comment"" // trailing space 
+, ""a\""b"" ] :o ,
+""" ++ [128512]%N ++ runes_of_ascii """:	a1 , }
+, repeat
+    charz zchar
+    , }
+")).
+Eval vm_compute in ("<<<M1209>>>" ++ check (runes_of_ascii "root
+packet Packet{// " ++ [27880; 37322]%N ++ runes_of_ascii "
+@tag( 255 ) @tag( 4294967296 ) match options1 as matchKey { ""CRC32"" :	crc
+, } , @tag( 00 )
+    trueish	,
+repeat lengthOf ,
+@tag(
+    42
+)
+    zchar[ 4294967296 ] Logon@lengthOf(	i64_ )`doc`
+,
+} packet string_// trailing space 
+{ @tag( 4294967296
+    // a // b
     )
-	`
-` 
-  /// triple
-	// c
-	,
-@leftPad (
-
-    '\x00'
-)
-
-u32  u8x
-	,
-}	root  packet
-
-    metadata{	repeat
-As
-
-,// c
-  uint64
-
-    trueish
-, 
-x `two words`
-    ,
-}options
-
-    {metadata	= 
+    repeat zchar[65535
+    ] options1
+`// not a comment`, float32 Packet	@lengthOf(u ) ,
+    int8	Foo
+, }
+")).
+Eval vm_compute in ("<<<M117>>>" ++ check (runes_of_ascii "
+packet x { @leftPad ( )	i32 float
+,}
+    options{  chars =
 '0'
-;
-
-}")).
-Eval vm_compute in ("<<<M4003>>>" ++ check (runes_of_ascii "packet Foo {
-    repeat u {
-        char[0123456789] string_ @calculatedFrom(""it's"") `" ++ [233]%N ++ runes_of_ascii "`,
-    },
-}
-
-options {
-    Foo = ""a\\"";
-    msg_type = 4294967296
-    o = ""CRC32"";
-    options1 = char[7];
-}
-
-root packet u {
-    match _x as rootA {
-        007 : f32a,
-        [007] : u8x,
-        [007, ""packet""] : _x,
-        [007, 10] : i64_,
-    },
-    int8 charz `two words`,
-}")).
-Eval vm_compute in ("<<<M3656>>>" ++ check (runes_of_ascii "options {
-    len = 255
-    tag = """ ++ [233]%N ++ runes_of_ascii "t" ++ [233]%N ++ runes_of_ascii """
-}
-
-packet packetx {
-}
-
-options {
-    repeatCount = '\x00';
-    x = 4294967296
-    len = false;
-    A = false;
-    Packet = """";
-}
-
-MetaData x {
-    uint32 roots,
-    lengthOf o `
-    `,
-    u32 x_y_z `line1
-    line2`,
-    int64 msg_type `crlf
-    line`,
-    string repeatCount `line1
-    line2`,
-    u128 stringy,
-}")).
-Eval vm_compute in ("<<<M836>>>" ++ check (runes_of_ascii "packet trueish {
-    // trailing space 
-    zchar[
-0
-] o
-@lengthOf( float	), @tag(
-    10
-    )stringy {
-zchar[ 65535  ]
-matchKey
-    ,	}
-    ,
-    @lengthOf(
-//
-//	t
-asx )zchar[
-    10 ] string_
-@calculatedFrom("""" ) `it's`	,
-}options {	rootA //x
+    ;Header // c
 =
+""`tick`""  x =
+// `tick` ""quote"" 'q'
+//
+'\x00' ; rootA = char[	65535  ] ;
+}options	{
+x =
+""it's"" asx
+    // " ++ [27880; 37322]%N ++ runes_of_ascii "
+    = char[ 007] ;  zchar= int8 ;
+//	t
 // a // b
-// trailing space 
-""1""
-; }
-    options
-    { body = u32 repeatCount= '\x00' }
-")).
-Eval vm_compute in ("<<<M123>>>" ++ check (runes_of_ascii "MetaData len /// triple
-{ //
-f64 T
-`u8 x,` , rootA	stringy ,  zchar repeatCount`say ""hi""` ,
-    MetaDataX As ,i8i8 string_, x_y_z f32a , } options // c
-{ Logon
-    //
-    =
-    string float =  string
-    A =
-""abc""/// triple
-;
-    //
-    A =
-""\" ++ [233]%N ++ runes_of_ascii """Logon =7	}
-    options{ }  options {
-    packetx = ""abc""// c
-; x =
-    true
+zchar =true ; chars= char[]
+/// triple
+// `tick` ""quote"" 'q'
 }
+    options {  o  = 7 Logon
+=	10 /// triple
+body =
+    false a1 // c
+= ""x y"" }
 ")).
-Eval vm_compute in ("<<<M1550>>>" ++ check (runes_of_ascii "root packet Foo // " ++ [128512]%N ++ runes_of_ascii " emoji
-{ } options {
-    // a // b
-    tag // `tick` ""quote"" 'q'
-= //	t
-""""
-    ; u8x = zchar[0  ] }
-MetaData
-    int {zchar[ 10]
-lengthOf	`` , i64 u8x`// not a comment` `// not a comment` ,MetaDataX pack// `tick` ""quote"" 'q'
-`crlf
-line`
-, Logon charz `crlf
-line`
+Eval vm_compute in ("<<<M4355>>>" ++ check (runes_of_ascii "
+
+  options{}options {
+    x
+=true }	MetaData
+
+uint8x
+    { i8i8
+u8x
+`tab	here`
+	,
+
+    char[
+0123456789 
+]calculatedFrom	``
+
     ,
-    // a // b
-    }
+float64 uint8x
+
+    ,charz options1 , }options { i8i8 = char[
+007 ]
+	// " ++ [27880; 37322]%N ++ runes_of_ascii "
+
+	// " ++ [27880; 37322]%N ++ runes_of_ascii "
+  ;
+
+}
+options	{ options1 =
+    '\x00';  // packet A { u8 x, }
+    	zchar =
+
+    '\x00' //
+	  string_//x
+
+= //
+  """ ++ [128512]%N ++ runes_of_ascii """
+	; body
+=
+    '0'
+
+}
+
 ")).
-Eval vm_compute in ("<<<M4441>>>" ++ check (runes_of_ascii "root packet Foo {
-    uint8x @lengthOf(zchar),
-    body {
-        repeat zchar[4294967296] tag,
+Eval vm_compute in ("<<<M3966>>>" ++ check (runes_of_ascii "options {
+    Foo = ' ';//
+    calculatedFrom = '\x00';
+    Logon = 0//
+    x = '\x00';// packet A { u8 x, }
+}
+
+packet _x {
+    @calculatedFrom(""" ++ [28040; 24687]%N ++ runes_of_ascii """)
+    repeat int32 Z9_,
+    Pad packetx,
+    @lengthOf(u128)
+    @tag(1)
+    match msg_type as x {
+        // @lengthOf(
+        [""" ++ [233]%N ++ runes_of_ascii "t" ++ [233]%N ++ runes_of_ascii """] : x,
     },
-    int8 _x `u8 x,`,
-    char[] T,
-    Foo,
-    @rightPad(' ')
-    repeat uint8 stringy,
-    zchar[255] calculatedFrom @calculatedFrom(""x y"") `" ++ [28040; 24687; 31867; 22411]%N ++ runes_of_ascii "`,
-    float32 len @lengthOf(i8i8),
-    uint32 Pad,
-}")).
-Eval vm_compute in ("<<<M1445>>>" ++ check (runes_of_ascii "root packet Foo // " ++ [128512]%N ++ runes_of_ascii " emoji
-{ } options {
-    // a // b
-    tag tag // `tick` ""quote"" 'q'
-= //	t
-""""
-    ; u8x = zchar[0  ] }
-MetaData
-    int {zchar[ 10]
-lengthOf	`` , i64 u8x`// not a comment` ,MetaDataX pack// `tick` ""quote"" 'q'
-`crlf
-line`
-, Logon charz `crlf
-line`
-    ,
-    // a // b
-    }
-")).
-Eval vm_compute in ("<<<M1450>>>" ++ check (runes_of_ascii "root packet Foo // " ++ [128512]%N ++ runes_of_ascii " emoji
-{ } options {
-    // a // b
-    tag // `tick` ""quote"" 'q'
-= = //	t
-""""
-    ; u8x = zchar[0  ] }
-MetaData
-    int {zchar[ 10]
-lengthOf	`` , i64 u8x`// not a comment` ,MetaDataX pack// `tick` ""quote"" 'q'
-`crlf
-line`
-, Logon charz `crlf
-line`
-    ,
-    // a // b
-    }
-")).
-Eval vm_compute in ("<<<M1622>>>" ++ check (runes_of_ascii "root packet Foo // " ++ [128512]%N ++ runes_of_ascii " emoji
-{ } options {
-    // a // b
-    tag // `tick` ""quote"" 'q'
-= //	t
-""""
-    ; u8x = zchar[0  ] }
-MetaData
-    int {zchar[ 10]
-lengthOf	`` , i64 u8x`// not a comment` ,MetaDataX pack// `tick` ""quote"" 'q'
-`crlf
-line`
-, Logon caf" ++ [233]%N ++ runes_of_ascii "_1 `crlf
-line`
-    ,
-    // a // b
-    }
-")).
-Eval vm_compute in ("<<<M1556>>>" ++ check (runes_of_ascii "root packet Foo // " ++ [128512]%N ++ runes_of_ascii " emoji
-{ } options {
-    // a // b
-    tag // `tick` ""quote"" 'q'
-= //	t
-""""
-    ; u8x = zchar[0  ] }
-MetaData
-    int {zchar[ 10]
-lengthOf	`` , i64 u8x`// not a comment` MetaDataX, pack// `tick` ""quote"" 'q'
-`crlf
-line`
-, Logon charz `crlf
-line`
-    ,
-    // a // b
-    }
-")).
-Eval vm_compute in ("<<<M3336>>>" ++ check (runes_of_ascii "packet calculatedFrom // c1
-{ @tag( // c3a
-  // c3b
-4294967296 // c4
-) // c5
-u // c6a
-  // c6b
-msg_type
-    // c7
-,
-    // c8
-char[ // c9
-3
-    // c10
-]
-    // c11
-crc
-    // c12
-@lengthOf( // c13a
-  // c13b
-len // c14a
-  // c14b
-) // c15a
-  // c15b
-`u8 x,`
-    // c16
-, // c17
-}
-    // c18
-")).
-Eval vm_compute in ("<<<M469>>>" ++ check (runes_of_ascii "packet calculatedFrom{
-Logon o , }// packet A { u8 x, }
-MetaData As
+    @lengthOf(a1)
+    leftPad As,
+    i8i8 _x,
+}// " ++ [128512]%N ++ runes_of_ascii " emoji")).
+Eval vm_compute in ("<<<M864>>>" ++ check (runes_of_ascii "options{
+    msg_type =false len= 4294967296  ; asx= false
 // a // b
-// " ++ [27880; 37322]%N ++ runes_of_ascii "
-{ uint32 repeatCount`{ , }` ,zchar[
-    /// triple
+// `tick` ""quote"" 'q'
+A = '\x00' float= zchar[
+    007 ] }
+packet u128
+{ float32 msg_type `a\`// c
+, } MetaData T{
+int64 o `" ++ [28040; 24687; 31867; 22411]%N ++ runes_of_ascii "`// @lengthOf(
+, char[]
+    Foo  , }options	{packetx =uint32	;	roots
+    = false ; falsey=zchar[
     00 ]
-    T `say ""hi""` , zchar[
-    1 ]  float`two words` , char[	42 ] stringy`// not a comment` ,
-zchar[ 007  ]chars`tab	here` , int16 stringy  ,}")).
-Eval vm_compute in ("<<<M1152>>>" ++ check (runes_of_ascii "MetaData x_y_z{
-} packet Foo{  repeat i64_{
-int32 f32a
-    , } , i8i8
-    @lengthOf( lengthOf ) , @lengthOf( matchKey ) @leftPad
-(
-    '0'	) repeat uint8x { u{ zchar[
-7]
-    i64_ @calculatedFrom( ""\" ++ [233]%N ++ runes_of_ascii """ ) `two words` , repeat char[] Z9_ `doc`,	} , }
-, f32 calculatedFrom `doc`	,}
+}options {
+    Logon = float32 }
+
 ")).
-Eval vm_compute in ("<<<M408>>>" ++ check (runes_of_ascii "root packet x  {
-u64 stringy
-`it's` , @tag( 1 )
-    body, @tag(0 ) string string_ , repeat/// triple
-As
-// a // b
-//x
-{ string pack `line1
-line2` , options1 @calculatedFrom(""// no comment"" )`say ""hi""`
+Eval vm_compute in ("<<<M52>>>" ++ check (runes_of_ascii "// `tick` ""quote"" 'q'
+root packet u128{Z9_ { match trueish // c
+as rootA { [	""abc"" , ""{,}""
+,// c
+0 ]
+: MetaDataX [
+""a\""b""
+]
+: tag ,
+""CRC32"" :
+//	t
+/// triple
+options1 ,
+    [
+    """ ++ [28040; 24687]%N ++ runes_of_ascii """,
+""a\\"" ] :
+lengthOf
+    , ""a\""b""
+: chars ,
+    } , }
 ,
-} , repeat leftPad `line1
-line2` // " ++ [27880; 37322]%N ++ runes_of_ascii "
-, char[] msg_type , }
+    @rightPad( '0'	) @calculatedFrom( ""CRC32"" ) char[00 ] packetx,
+} // a // b")).
+Eval vm_compute in ("<<<M842>>>" ++ check (runes_of_ascii "// @lengthOf(
+packet
+    _x {  @calculatedFrom( ""a	b"" )
+T rootA ``, u64 body	@calculatedFrom(""a	b""  )
+    //x
+    `two words` ,	zchar[
+7 ] MetaDataX @calculatedFrom( ""it's"")`say ""hi""` /// triple
+,
+// trailing space 
+// `tick` ""quote"" 'q'
+f32a {repeat zchar[
+    00
+    ]
+roots`" ++ [233]%N ++ runes_of_ascii "` ,}	, } // `tick` ""quote"" 'q'")).
+Eval vm_compute in ("<<<M314>>>" ++ check (runes_of_ascii "options
+{roots =3 leftPad
+/// triple
+// c
+= string	; packetx =	false ; zchar
+= true options1 = false ;
+    } MetaData
+    string_ {i32 x_y_z
+    ,char[ 4294967296
+] zchar`two words`
+, // c
+char[ 42 ] metadata
+, }packet _x {
+    int8 rootA`doc` ,
+    } options
+{ lengthOf =
+    ""// no comment"" } 	 ")).
+Eval vm_compute in ("<<<M1422>>>" ++ check (runes_of_ascii "root packet char[] // " ++ [128512]%N ++ runes_of_ascii " emoji
+{ } options {
+    // a // b
+    tag // `tick` ""quote"" 'q'
+= //	t
+""""
+    ; u8x = zchar[0  ] }
+MetaData
+    int {zchar[ 10]
+lengthOf	`` , i64 u8x`// not a comment` ,MetaDataX pack// `tick` ""quote"" 'q'
+`crlf
+line`
+, Logon charz `crlf
+line`
+    ,
+    // a // b
+    }
 ")).
-Eval vm_compute in ("<<<M3654>>>" ++ check (runes_of_ascii "root packet
-i64_ {
-	@calculatedFrom(  ""\n"" 
-)
-    repeat  // packet A { u8 x, }
-
-uint32 BodyLength , @leftPad  /// triple
-(	' '// @lengthOf(
-
-) i32 
-falsey @lengthOf(
-	i64_
-    ) 	 //x
-	`line1
-line2`	, @rightPad ( )repeat
-	int64 
-int`" ++ [233]%N ++ runes_of_ascii "`	, 
-} 
-    // " ++ [27880; 37322]%N)).
-Eval vm_compute in ("<<<M59>>>" ++ check (runes_of_ascii "packet _x { Packet { chars
-    Logon
-,int8 float , i64 rootA `" ++ [233]%N ++ runes_of_ascii "` ,} /// triple
-,@calculatedFrom(
-""abc"" )
-    x_y_z
-{ leftPad // trailing space 
-charz
-`a\` ,i32 metadata `say ""hi""` ,} , charz rootA `u8 x,`, }  root// " ++ [128512]%N ++ runes_of_ascii " emoji
-packet f32a//
-{ }
+Eval vm_compute in ("<<<M1595>>>" ++ check (runes_of_ascii "root packet Foo // " ++ [128512]%N ++ runes_of_ascii " emoji
+{ } options {
+    // a // b
+    tag // `tick` ""quote"" 'q'
+= //	t
+""""
+    ; u8x = zchar[0  ] }
+MetaData
+    int {zchar[ 10]
+lengthOf	`` , i64 u8x`// not a comment` ,MetaDataX pack// `tick` ""quote"" 'q'
+`crlf
+line`
+, Logon charz `crlf
+line`
+    , ,
+    // a // b
+    }
 ")).
-Eval vm_compute in ("<<<M4404>>>" ++ check (runes_of_ascii "root packet Foo {
+Eval vm_compute in ("<<<M1446>>>" ++ check (runes_of_ascii "root packet Foo // " ++ [128512]%N ++ runes_of_ascii " emoji
+{ } options {
+    // a // b
+    = // `tick` ""quote"" 'q'
+tag //	t
+""""
+    ; u8x = zchar[0  ] }
+MetaData
+    int {zchar[ 10]
+lengthOf	`` , i64 u8x`// not a comment` ,MetaDataX pack// `tick` ""quote"" 'q'
+`crlf
+line`
+, Logon charz `crlf
+line`
+    ,
+    // a // b
+    }
+")).
+Eval vm_compute in ("<<<M4119>>>" ++ check (runes_of_ascii "
+MetaData
+charz{
+
+}	// " ++ [27880; 37322]%N ++ runes_of_ascii "
+  	root  packet
+
+    matchKey {  o	@calculatedFrom( ""a\""b""  )
+,zchar[10
+
+    ]
+i8i8
+
+    @calculatedFrom(
+""1""
+) 
+`tab	here` , match	crc as
+
+rootA{ 255 :
+	Z9_ , 42 :// c
+	lengthOf , 
+[ 0 ,
+
+007
+
+    ]:Logon  ""\n""
+	:
+    T
+    0123456789 : float  ,
+
+} , 
+}
+")).
+Eval vm_compute in ("<<<M1582>>>" ++ check (runes_of_ascii "root packet Foo // " ++ [128512]%N ++ runes_of_ascii " emoji
+{ } options {
+    // a // b
+    tag // `tick` ""quote"" 'q'
+= //	t
+""""
+    ; u8x = zchar[0  ] }
+MetaData
+    int {zchar[ 10]
+lengthOf	`` , i64 u8x`// not a comment` ,MetaDataX pack// `tick` ""quote"" 'q'
+`crlf
+line`
+, f32 charz `crlf
+line`
+    ,
+    // a // b
+    }
+")).
+Eval vm_compute in ("<<<M879>>>" ++ check (runes_of_ascii "packet
+calculatedFrom {
+repeat charz , Logon @calculatedFrom( ""packet"")
+    , @tag(
+1 )
+    repeat zchar[	255
+] rootA
+    , string
+calculatedFrom `two words`, @rightPad ( ' ' )
+@calculatedFrom(""\n"" )@tag(4294967296 )
+chars @calculatedFrom( """ ++ [233]%N ++ runes_of_ascii "t" ++ [233]%N ++ runes_of_ascii """ ) `
+` // c
+,  repeat u128//x
+int
+,
+}")).
+Eval vm_compute in ("<<<M1005>>>" ++ check (runes_of_ascii "packet o {
+@lengthOf(matchKey	) Logon ,
+@lengthOf( u128 ) Header metadata `u8 x,` ,
+// " ++ [27880; 37322]%N ++ runes_of_ascii "
+// `tick` ""quote"" 'q'
+@leftPad	(' '
+    //
+    )
+@lengthOf( Header ) @calculatedFrom( ""\" ++ [233]%N ++ runes_of_ascii """ )f32a
+@lengthOf( asx)	, } MetaData leftPad{ i32
+    // `tick` ""quote"" 'q'
+    charz `
+` ,
+}
+")).
+Eval vm_compute in ("<<<M560>>>" ++ check (runes_of_ascii "options { lengthOf
+    = 7 u8x // " ++ [27880; 37322]%N ++ runes_of_ascii "
+= true  ;
+matchKey =
+65535 ;// trailing space 
+As // " ++ [27880; 37322]%N ++ runes_of_ascii "
+=
+    4294967296
+    ;
+    packetx
+=
+    true
+    ;}packet
+Foo {@lengthOf( u8x /// triple
+) float32 trueish , repeat
+char[] crc// " ++ [128512]%N ++ runes_of_ascii " emoji
+, repeat int,} packet As { }
+")).
+Eval vm_compute in ("<<<M4349>>>" ++ check (runes_of_ascii "options {
+    falsey = ""a	b"";
+    leftPad = '0';
+    o = float64
+}
+
+packet x {
+    match f32a as uint8x {
+        [
+            255, 7, 42, 7, ""abc"",
+            255, ""1"", 0
+        ] : matchKey,
+        // trailing space 
+    },
+}// packet A { u8 x, }")).
+Eval vm_compute in ("<<<M3756>>>" ++ check (runes_of_ascii "root packet Foo {
 }
 
 options {
@@ -1714,40 +1711,80 @@ MetaData int {
     zchar[10] lengthOf ``,
     i64 u8x `// not a comment`,
     MetaDataX pack `crlf
-        line`,
-    Logon charz `crlf
-        line`,
-}")).
-Eval vm_compute in ("<<<M3542>>>" ++ check (runes_of_ascii "packet Sub {
-    u8 a,
-    u32 SubSum @calculatedFrom(""CRC16""),
-}
-root packet Frame {
-    u16 MsgType,
-    u16 BodyLen @lengthOf(Body),
-    Sub Body,
-    string note,
-    u32 Checksum @calculatedFrom(""CRC16""),
-    u8 tail,
-}
-")).
-Eval vm_compute in ("<<<M3940>>>" ++ check (runes_of_ascii "options {
-    len = false// " ++ [128512]%N ++ runes_of_ascii " emoji
-}
-
-options {
-    leftPad = ""`tick`"";
-    repeatCount = char[4294967296]
-    chars = ""`tick`""
-}
-
-packet trueish {
-    u16 crc,
-    @tag(0123456789)
-    string trueish `crlf
     line`,
+    Logon charz `crlf
+    line`,
+    // a // b
 }")).
-Eval vm_compute in ("<<<M2226>>>" ++ check (runes_of_ascii "MetaData Packet { } }packet	asx  { @lengthOf( asx) falsey`crlf
+Eval vm_compute in ("<<<M3867>>>" ++ check (runes_of_ascii "  options
+{	a1
+
+= char[1 ] 	 // " ++ [27880; 37322]%N ++ runes_of_ascii "
+	;  x=
+f64 ;
+
+Z9_
+    = 
+    //x
+	//
+	char[  3
+    ] ;
+Z9_
+
+    = '\x00' 
+x_y_z  = zchar[ 
+10
+    ]
+
+    ;
+}
+
+    packet x_y_z  { chars
+
+trueish `it's`
+        // " ++ [128512]%N ++ runes_of_ascii " emoji
+  	//x
+      ,
+}")).
+Eval vm_compute in ("<<<M257>>>" ++ check (runes_of_ascii "packet
+float { f64 float `u8 x,` ,
+// " ++ [27880; 37322]%N ++ runes_of_ascii "
+//	t
+@tag(
+1 )len tag `crlf
+line`
+, } root packet u	{ o x `it's` , @rightPad
+    ( ) repeat zchar[
+00]	Foo ,
+    // trailing space 
+    }root
+packet// `tick` ""quote"" 'q'
+string_{}
+
+")).
+Eval vm_compute in ("<<<M2273>>>" ++ check (runes_of_ascii "MetaData Packet { }packet	asx  { @lengthOf( asx) falsey`crlf
+line`
+'\x00'
+    }
+    packet x	{uint32// @lengthOf(
+rootA	,u32 options1 `say ""hi""` , @tag( 7
+    )// packet A { u8 x, }
+msg_type @lengthOf(
+stringy	)	, }
+
+")).
+Eval vm_compute in ("<<<M2341>>>" ++ check (runes_of_ascii "MetaData Packet { }packet	asx  { @lengthOf( asx) falsey`crlf
+line`
+,
+    }
+    packet x	{uint32// @lengthOf(
+rootA	,u32 options1 `say ""hi""` , @tag( 7
+    ) )// packet A { u8 x, }
+msg_type @lengthOf(
+stringy	)	, }
+
+")).
+Eval vm_compute in ("<<<M2242>>>" ++ check (runes_of_ascii "MetaData Packet { }packet	asx  @lengthOf( { asx) falsey`crlf
 line`
 ,
     }
@@ -1758,458 +1795,409 @@ msg_type @lengthOf(
 stringy	)	, }
 
 ")).
-Eval vm_compute in ("<<<M2387>>>" ++ check (runes_of_ascii "MetaData Packet { }packet	asx  { @lengthOf( asx) falsey`crlf
-line`
-,
-    }
-    packet x	{uint32// @lengthOf(
-rootA	,u32 options1 `say ""hi""` , ?@tag( 7
-    )// packet A { u8 x, }
-msg_type @lengthOf(
-stringy	)	, }
-
-")).
-Eval vm_compute in ("<<<M2347>>>" ++ check (runes_of_ascii "MetaData Packet { }packet	asx  { @lengthOf( asx) falsey`crlf
+Eval vm_compute in ("<<<M2240>>>" ++ check (runes_of_ascii "MetaData Packet { }packet	asx   @lengthOf( asx) falsey`crlf
 line`
 ,
     }
     packet x	{uint32// @lengthOf(
 rootA	,u32 options1 `say ""hi""` , @tag( 7
     )// packet A { u8 x, }
-@lengthOf( msg_type
+msg_type @lengthOf(
 stringy	)	, }
 
 ")).
-Eval vm_compute in ("<<<M686>>>" ++ check (runes_of_ascii "// " ++ [27880; 37322]%N ++ runes_of_ascii "
-MetaData T{char[// @lengthOf(
-3 ] stringy`a\`
+Eval vm_compute in ("<<<M2373>>>" ++ check (runes_of_ascii "MetaData Packet { }packet	asx  { @lengthOf( asx) falsey`crlf
+line`
 ,
-char[
-/// triple
-//x
-007 ] u // trailing space 
-`u8 x,` ,  char[]
-    int //x
-`" ++ [28040; 24687; 31867; 22411]%N ++ runes_of_ascii "`,	zchar[
+    }
+    packet x	{uint32// @lengthOf(
+rootA	,u32 options1 `say ""hi""` , @tag( 7
+    )// packet A { u8 x, }
+msg_type @lengthOf(
+stringy	)	,")).
+Eval vm_compute in ("<<<M4025>>>" ++ check (runes_of_ascii "packet x_y_z {
+    @tag(0123456789)
+    match T as roots {
+        255 : asx,
+        [1, 3, ""`tick`""] : Header,
+        3 : pack,
+        // " ++ [128512]%N ++ runes_of_ascii " emoji
+    },
+    u64 a1 `tab	here`,
+    _x options1 `{ , }`,
+}")).
+Eval vm_compute in ("<<<M1568>>>" ++ check (runes_of_ascii "root packet Foo // " ++ [128512]%N ++ runes_of_ascii " emoji
+{ } options {
+    // a // b
+    tag // `tick` ""quote"" 'q'
+= //	t
+""""
+    ; u8x = zchar[0  ] }
+MetaData
+    int {zchar[ 10]
+lengthOf	`` , i64 u8x`// not a comment` ,MetaDataX")).
+Eval vm_compute in ("<<<M49>>>" ++ check (runes_of_ascii "// a // b
+root
+    packet string_ { i32 options1 `say ""hi""`
+, } packet stringy
 // " ++ [128512]%N ++ runes_of_ascii " emoji
-// a // b
-4294967296 ] leftPad
-, char[]
-uint8x , }
-
+/// triple
+{
+    } MetaData
+len  {i8i8
+charz
+    `u8 x,`,
+// `tick` ""quote"" 'q'
+// trailing space 
+}")).
+Eval vm_compute in ("<<<M932>>>" ++ check (runes_of_ascii "packet //x
+roots
+    { @rightPad(
+    '\x00'// a // b
+)
+o Z9_ ,
+@tag( 00 )  @tag(1
+    // trailing space 
+    ) @lengthOf( MetaDataX ) Z9_@calculatedFrom( // @lengthOf(
+""x y"" )	,}
 ")).
-Eval vm_compute in ("<<<M4040>>>" ++ check (runes_of_ascii "
-
-  root packet
-
-leftPad
-
-    { 
+Eval vm_compute in ("<<<M147>>>" ++ check (runes_of_ascii "root packet stringy { @tag( 7 ) @tag( 1
+    ) @rightPad (
+'\x00'
+    )Foo // `tick` ""quote"" 'q'
+x`crlf
+line` ,@calculatedFrom(  ""a	b"" ) roots //x
+`it's`// @lengthOf(
+,
+    }")).
+Eval vm_compute in ("<<<M77>>>" ++ check (runes_of_ascii "MetaData o
+    { char[] i64_
+`{ , }`	, u16 tag  ,
+char[]
+lengthOf	`u8 x,` , Z9_  rootA`
+`,
+zchar[	3 // trailing space 
+] u, // " ++ [27880; 37322]%N ++ runes_of_ascii "
+float T
+//	t
+//	t
+`{ , }`
+    , }
+")).
+Eval vm_compute in ("<<<M1243>>>" ++ check (runes_of_ascii "
+packet string_{metadata
+// a // b
+/// triple
+@lengthOf(	T), @lengthOf( x ) Logon @calculatedFrom( """"
+)
+, @calculatedFrom( ""a	b""
+) x_y_z
+    `say ""hi""` ,
+    }
+")).
+Eval vm_compute in ("<<<M584>>>" ++ check (runes_of_ascii "
+root packet leftPad {
 //	t
 // c
-
-	char[]	chars
-
-    ,}
-    root
-
-packet 
-        // a // b
-    	// `tick` ""quote"" 'q'
-stringy
-{ 	 // " ++ [27880; 37322]%N ++ runes_of_ascii "
-
-char[ 42 ] A	, }
-
+char[] chars , }root
     packet
-
-    Foo
-	{u128 A, }
-")).
-Eval vm_compute in ("<<<M728>>>" ++ check (runes_of_ascii "// `tick` ""quote"" 'q'
-options { }	options {Foo =// trailing space 
-'\x00' ; stringy = 65535 ; u= '\x00' Foo = true
-// packet A { u8 x, }
-//
-Foo = // " ++ [27880; 37322]%N ++ runes_of_ascii "
-""abc"" ; } packet MetaDataX
-    { float32 asx , } 	 ")).
-Eval vm_compute in ("<<<M3716>>>" ++ check (runes_of_ascii "
-
-  root packet
-	msg_type  
-  // " ++ [27880; 37322]%N ++ runes_of_ascii "
-
-//	t
-		{ string
-    lengthOf
-`a\`, @tag(
-    65535  )
-	rootA
-
-    calculatedFrom,char[]
-	crc  `{ , }`,
-
-zchar[ 
-
-    // c
-//	t
-65535
-
-]
-    msg_type
-,
-
-} ")).
-Eval vm_compute in ("<<<M394>>>" ++ check (runes_of_ascii "MetaData  tag
-    {i8 body ,char[]tag , int16 metadata ,
-    // c
-    f64 body`" ++ [28040; 24687; 31867; 22411]%N ++ runes_of_ascii "`
 // a // b
-/// triple
-,
-    char[ // `tick` ""quote"" 'q'
-42 ] rootA, // a // b
-T metadata `say ""hi""`
-, }")).
-Eval vm_compute in ("<<<M494>>>" ++ check (runes_of_ascii "packet u128
-{
-} MetaData
-    int {int16 crc//	t
-,
-    uint32 Pad,}packet string_ {} packet// @lengthOf(
-BodyLength {	msg_type	leftPad `a\` , }
-options{ tag = false charz = 3
-; }
-")).
-Eval vm_compute in ("<<<M743>>>" ++ check (runes_of_ascii "MetaData roots { } MetaData
-stringy {
-Logon leftPad// " ++ [27880; 37322]%N ++ runes_of_ascii "
-`crlf
-line`
-,	char[] metadata`{ , }`
-,
-falsey  pack `" ++ [233]%N ++ runes_of_ascii "`,
-    i8 repeatCount// " ++ [27880; 37322]%N ++ runes_of_ascii "
-,} options{
-matchKey =' ' }
-
-")).
-Eval vm_compute in ("<<<M1183>>>" ++ check (runes_of_ascii "packet Z9_
-{@calculatedFrom( ""{,}"" ) roots //x
-{ len {
-    msg_type //x
-,uint8x `{ , }`  , zchar[
-// trailing space 
-// " ++ [128512]%N ++ runes_of_ascii " emoji
-0
-] //	t
-matchKey ,
-    } , } , }
-")).
-Eval vm_compute in ("<<<M1088>>>" ++ check (runes_of_ascii "packet u // c
-{
-    //x
-    char[42 ]
-roots
-// " ++ [27880; 37322]%N ++ runes_of_ascii "
 // `tick` ""quote"" 'q'
-, @lengthOf( u128)
-uint8 tag,repeat uint16
-int `{ , }`
-,
-    }
-// trailing space 
-")).
-Eval vm_compute in ("<<<M3466>>>" ++ check (runes_of_ascii "root packet
-    // c1
-P // c2
-{ u8 // c4
-s_u8 // c5
-, // c6
-repeat // c7
-u8 // c8
-r_u8 , u16 // c11
-b_len
-    // c12
-, // c13a
-  // c13b
+stringy
+{// " ++ [27880; 37322]%N ++ runes_of_ascii "
+char[  42 ] A , } packet Foo{
+u128
+A ,
 }
-    // c14
 ")).
-Eval vm_compute in ("<<<M215>>>" ++ check (runes_of_ascii "MetaData tag { zchar[ // a // b
-007 ]BodyLength ``
-    // packet A { u8 x, }
-    , } root packet MetaDataX {
-string_
-    @lengthOf(
-Header) ,}
-")).
-Eval vm_compute in ("<<<M4235>>>" ++ check (runes_of_ascii "packet A {
-    Inner {
-        u8 x `
-                x`,
-        Deep {
-            u8 y `
-                        x`,
-        },
-    },
-}")).
-Eval vm_compute in ("<<<M1230>>>" ++ check (runes_of_ascii "packet Z9_ { match leftPad as options1{
-65535
-    : //	t
-matchKey ,
-    // packet A { u8 x, }
-    } , T
-//x
-// `tick` ""quote"" 'q'
-,}
+Eval vm_compute in ("<<<M3438>>>" ++ check (runes_of_ascii "packet
+    B
+{u8 a
+    ,  }	root packet
 
+    P{ u8
+
+    K
+
+    ,
+	u64
+
+    L@lengthOf(	Body
+)  ,  match 
+K
+	as
+    Body {	1 
+:
+B 
+, 
+},}
 ")).
-Eval vm_compute in ("<<<M652>>>" ++ check (runes_of_ascii "packet metadata {@calculatedFrom(""" ++ [233]%N ++ runes_of_ascii "t" ++ [233]%N ++ runes_of_ascii """
-// `tick` ""quote"" 'q'
-// " ++ [128512]%N ++ runes_of_ascii " emoji
-) @calculatedFrom(
-""1""
-)
-    repeat
-char
-i64_
-`a\` ,
-    }
+Eval vm_compute in ("<<<M996>>>" ++ check (runes_of_ascii "root// " ++ [27880; 37322]%N ++ runes_of_ascii "
+packet  MetaDataX { //	t
+@calculatedFrom(""it's""
+    // packet A { u8 x, }
+    )string // " ++ [27880; 37322]%N ++ runes_of_ascii "
+msg_type @calculatedFrom("""" )
+`{ , }` ,}")).
+Eval vm_compute in ("<<<M825>>>" ++ check (runes_of_ascii "
+packet string_ { @calculatedFrom( ""abc"" ) @calculatedFrom(""" ++ [28040; 24687]%N ++ runes_of_ascii """ ) @rightPad (
+//	t
+// packet A { u8 x, }
+'0'
+    )crc len `tab	here`
+,
+}
 ")).
-Eval vm_compute in ("<<<M1733>>>" ++ check (runes_of_ascii "root packet /// triple
+Eval vm_compute in ("<<<M1703>>>" ++ check (runes_of_ascii "root packet /// triple
 rootA {	i32
 MetaDataX@calculatedFrom( ""CRC32"" ) `line1
 line2` , } MetaData BodyLength {
 u8
-rootA? , } // c")).
-Eval vm_compute in ("<<<M1694>>>" ++ check (runes_of_ascii "root packet /// triple
+rootA rootA, } // c")).
+Eval vm_compute in ("<<<M4249>>>" ++ check (runes_of_ascii "packet A {
+    match k as n {
+        [
+            1, ""bb"", 007, ""d"", 5,
+            ""f"", 7
+        ] : B,
+        2 : C,
+    },
+}")).
+Eval vm_compute in ("<<<M1627>>>" ++ check (runes_of_ascii "packet root /// triple
 rootA {	i32
 MetaDataX@calculatedFrom( ""CRC32"" ) `line1
-line2` , } MetaData BodyLength u8
-{
+line2` , } MetaData BodyLength {
+u8
 rootA, } // c")).
-Eval vm_compute in ("<<<M3668>>>" ++ check (runes_of_ascii "
-
-  packet  Logon
-    {
-    @tag(	42 	 // c
-  )
-    @rightPad
-(' '	)  @leftPad
-
-(  )  repeat trueish
-
-{
-
-string
-	T,
-    } ,}")).
-Eval vm_compute in ("<<<M4074>>>" ++ check (runes_of_ascii "
-packet Logon // c
-	{
-	@tag(42
-	)
-
-    @rightPad
-(' '
-
-    )	@leftPad
-
-    (
-
-) repeat trueish	{	string
-	T,
-	}
-,}
+Eval vm_compute in ("<<<M53>>>" ++ check (runes_of_ascii "  options{ u= ""a	b"" ; charz = true ;
+    matchKey =//x
+0123456789 u8x =
+char[]
+    // trailing space 
+    Packet
+=
+false ; }
 ")).
-Eval vm_compute in ("<<<M1786>>>" ++ check (runes_of_ascii "packet
-    Pad Pad // a // b
-{ i8i8 @calculatedFrom( ""a	b"") `u8 x,` ,
+Eval vm_compute in ("<<<M385>>>" ++ check (runes_of_ascii "// @lengthOf(
+packet
+    // " ++ [27880; 37322]%N ++ runes_of_ascii "
+    float{
+    @calculatedFrom(
+    ""abc"" )
+char chars
+    @calculatedFrom(""CRC32"" )`" ++ [233]%N ++ runes_of_ascii "`
+, }
+")).
+Eval vm_compute in ("<<<M1323>>>" ++ check (runes_of_ascii "options {
+tag = ""// no comment""/// triple
+calculatedFrom= 10
+    Packet
+    // `tick` ""quote"" 'q'
+    ='0' ; }
+// a // b
+")).
+Eval vm_compute in ("<<<M1823>>>" ++ check (runes_of_ascii "packet
+    Pad // a // b
+{ i8i8 @calculatedFrom( ""a	b"") `u8 x,` int8
 } options{ float// " ++ [128512]%N ++ runes_of_ascii " emoji
 = f64 i64_
 =//	t
 00 }
 ")).
-Eval vm_compute in ("<<<M1846>>>" ++ check (runes_of_ascii "packet
+Eval vm_compute in ("<<<M1687>>>" ++ check (runes_of_ascii "root packet /// triple
+rootA {	i32
+MetaDataX@calculatedFrom( ""CRC32"" ) `line1
+line2` , } MetaData  {
+u8
+rootA, } // c")).
+Eval vm_compute in ("<<<M1807>>>" ++ check (runes_of_ascii "packet
     Pad // a // b
-{ i8i8 @calculatedFrom( ""a	b"") `u8 x,` ,
+{ i8i8 @calculatedFrom( )""a	b"" `u8 x,` ,
 } options{ float// " ++ [128512]%N ++ runes_of_ascii " emoji
-= = f64 i64_
+= f64 i64_
 =//	t
 00 }
 ")).
-Eval vm_compute in ("<<<M24>>>" ++ check (runes_of_ascii "packet _x { int32 u , @tag(3)char[ 255]
-    // @lengthOf(
-    A
-    @calculatedFrom( ""x y""
-    )
-`crlf
-line`,
-    }")).
-Eval vm_compute in ("<<<M1670>>>" ++ check (runes_of_ascii "root packet /// triple
-rootA {	i32
-MetaDataX@calculatedFrom( ""CRC32"" ) : , } MetaData BodyLength {
-u8
-rootA, } // c")).
-Eval vm_compute in ("<<<M144>>>" ++ check (runes_of_ascii "  packet rootA	{ int @lengthOf(
-    Packet // packet A { u8 x, }
-) // `tick` ""quote"" 'q'
-`// not a comment` , }
+Eval vm_compute in ("<<<M1894>>>" ++ check (runes_of_ascii "packet
+    Pad // a // b
+{ i8i8 @calculatedFrom( ""a	b"") `u8 x,` ,
+} options{ " ++ [252]%N ++ runes_of_ascii "ber// " ++ [128512]%N ++ runes_of_ascii " emoji
+= f64 i64_
+=//	t
+00 }
 ")).
-Eval vm_compute in ("<<<M334>>>" ++ check (runes_of_ascii "// @lengthOf(
-options{ } packet pack  {//
-} options
-    {
-    }MetaData msg_type
-{} root packet repeatCount  {}")).
-Eval vm_compute in ("<<<M3463>>>" ++ check (runes_of_ascii "root packet
-    // c1
-P {
-    // c3
-repeat string ss , // c7
-repeat // c8
-u16 // c9
-ns
-    // c10
-, } // c12
+Eval vm_compute in ("<<<M4403>>>" ++ check (runes_of_ascii "packet  Logon	// c
+	{ @tag(42
+    ) @rightPad	( ' ' 
+)  @leftPad ( ) repeat	trueish
+	{ string
+
+    T , 
+}, 
+}
 ")).
-Eval vm_compute in ("<<<M3034>>>" ++ check (runes_of_ascii "packet A {
-    u16 len @lengthOf(body) `x
-`,
-    u32 crc @calculatedFrom(""CRC32"") `x
-`,
+Eval vm_compute in ("<<<M2999>>>" ++ check (runes_of_ascii "packet A {
+  match k as n {
+    [""a"", ""bb"", 007, ""d"", ""e"", 66, ""g"", ""h"", 9, ""j"", ""k"", 12] : B,
+    2 : C
+  },
+}")).
+Eval vm_compute in ("<<<M3004>>>" ++ check (runes_of_ascii "packet A {
+    u16 len @lengthOf(body) `a
+b`,
+    u32 crc @calculatedFrom(""CRC32"") `a
+b`,
     string body,
 }")).
-Eval vm_compute in ("<<<M3339>>>" ++ check (runes_of_ascii "packet // c
-calculatedFrom { @tag( 4294967296 ) u msg_type , char[ 3 ] crc @lengthOf( len ) `u8 x,` , }")).
-Eval vm_compute in ("<<<M3371>>>" ++ check (runes_of_ascii "packet calculatedFrom { @tag( 4294967296 ) u msg_type , char[ 3 ] crc @lengthOf( len ) `u8 x,` // c
-, }")).
-Eval vm_compute in ("<<<M4110>>>" ++ check (runes_of_ascii "//x
-options {
-    x_y_z = i16// " ++ [128512]%N ++ runes_of_ascii " emoji
-    charz = ""a	b"";
-    // @lengthOf(
-    //
-    len = ' ';
+Eval vm_compute in ("<<<M4174>>>" ++ check (runes_of_ascii "packet leftPad {
+    char[] MetaDataX `crlf
+        line`,
+    f32 pack @calculatedFrom(""a\\"") `" ++ [28040; 24687; 31867; 22411]%N ++ runes_of_ascii "`,
 }")).
-Eval vm_compute in ("<<<M3638>>>" ++ check (runes_of_ascii "
-packet A{
-match k
-as
-
-n
-
-    { [
-
-1,
-22
-
-    , 007
-	,	4	,
-	5	]	:
-B
-2 
-:
-
-    C
-}
-, }
-")).
-Eval vm_compute in ("<<<M3221>>>" ++ check (runes_of_ascii "packet Logon {
+Eval vm_compute in ("<<<M3346>>>" ++ check (runes_of_ascii "packet calculatedFrom { @tag(
 // c
-@tag( 42 ) @rightPad ( ' ' ) @leftPad ( ) repeat trueish { string T , } , }")).
-Eval vm_compute in ("<<<M3253>>>" ++ check (runes_of_ascii "packet Logon { @tag( 42 ) @rightPad ( ' ' ) @leftPad ( ) repeat trueish { string T ,
-// c
-} , }")).
+4294967296 ) u msg_type , char[ 3 ] crc @lengthOf( len ) `u8 x,` , }")).
+Eval vm_compute in ("<<<M4132>>>" ++ check (runes_of_ascii "MetaData float {
+    tag body `" ++ [233]%N ++ runes_of_ascii "`,
+    f64 i8i8 `{ , }`,
+    f32 chars `two words`,
+    Pad i64_,
+}//	t")).
+Eval vm_compute in ("<<<M3900>>>" ++ check (runes_of_ascii "packet A {
+    u32 crc @calculatedFrom(""\
+        ""),
+    @calculatedFrom(""\
+        "")
+    u8 y,
+}")).
+Eval vm_compute in ("<<<M1997>>>" ++ check (runes_of_ascii "root
+packet crc
+    { f32a @calculatedFrom( """ ++ [233]%N ++ runes_of_ascii "t" ++ [233]%N ++ runes_of_ascii """ )
+    `say ""hi""` `say ""hi""`, lengthOf `` ,  }")).
+Eval vm_compute in ("<<<M3222>>>" ++ check (runes_of_ascii "packet Logon { @tag( // c
+42 ) @rightPad ( ' ' ) @leftPad ( ) repeat trueish { string T , } , }")).
+Eval vm_compute in ("<<<M3254>>>" ++ check (runes_of_ascii "packet Logon { @tag( 42 ) @rightPad ( ' ' ) @leftPad ( ) repeat trueish { string T , } // c
+, }")).
 Eval vm_compute in ("<<<M267>>>" ++ check (runes_of_ascii "root packet repeatCount
 { @lengthOf( Foo  ) @tag( 4294967296 )
 repeat f32	u8x
     , }
 // c
 ")).
-Eval vm_compute in ("<<<M519>>>" ++ check (runes_of_ascii "packet x{ //
-Header ,repeat float32 i8i8
-,
-// `tick` ""quote"" 'q'
-// packet A { u8 x, }
+Eval vm_compute in ("<<<M3898>>>" ++ check (runes_of_ascii "packet
+    A 
+{ match 
+k 
+as n  {[ 
+""a""	,
+    ""bb"" ,
+
+    ""c c"" ]:
+
+B 2
+    : C
+	}
+	,
 }
 ")).
-Eval vm_compute in ("<<<M1994>>>" ++ check (runes_of_ascii "root
-packet crc
-    { f32a @calculatedFrom( """ ++ [233]%N ++ runes_of_ascii "t" ++ [233]%N ++ runes_of_ascii """ i64
-    `say ""hi""`, lengthOf `` ,  }")).
-Eval vm_compute in ("<<<M1371>>>" ++ check (runes_of_ascii "
-options { repeatCount =	""CRC32""x =true //x
-u  = ""\" ++ [233]%N ++ runes_of_ascii """
-    ; stringy = //
-'\x00'; }
+Eval vm_compute in ("<<<M812>>>" ++ check (runes_of_ascii "packet int {}
+    // packet A { u8 x, }
+    packet Pad { repeat zchar[
+7 ] body`" ++ [233]%N ++ runes_of_ascii "` , }
 ")).
-Eval vm_compute in ("<<<M2021>>>" ++ check (runes_of_ascii "root
+Eval vm_compute in ("<<<M2030>>>" ++ check (runes_of_ascii "root
+packet crc
+    `{ f32a @calculatedFrom( """ ++ [233]%N ++ runes_of_ascii "t" ++ [233]%N ++ runes_of_ascii """ )
+    `say ""hi""`, lengthOf `` ,  }")).
+Eval vm_compute in ("<<<M2004>>>" ++ check (runes_of_ascii "root
 packet crc
     { f32a @calculatedFrom( """ ++ [233]%N ++ runes_of_ascii "t" ++ [233]%N ++ runes_of_ascii """ )
-    `say ""hi""`, lengthOf `` ,  ")).
-Eval vm_compute in ("<<<M4072>>>" ++ check (runes_of_ascii "  root 
-    // `tick` ""quote"" 'q'
-      packet
-
-As {
-
-    Packet trueish	,
+    `say ""hi""`] lengthOf `` ,  }")).
+Eval vm_compute in ("<<<M1079>>>" ++ check (runes_of_ascii "MetaData packetx { zchar[
+42 //	t
+] uint8x `doc`
+    , uint16
+string_`two words`,}")).
+Eval vm_compute in ("<<<M2915>>>" ++ check (runes_of_ascii "packet A {
+  match k as n {
+    [1, ""bb"", 007, ""d"", 5, ""f""] : B,
+    2 : C
+  },
+}")).
+Eval vm_compute in ("<<<M3321>>>" ++ check (runes_of_ascii "packet o { @tag( 42 ) repeat x { char[ 0123456789 ] i64_ ,
+// c
+} , } options { }")).
+Eval vm_compute in ("<<<M278>>>" ++ check (runes_of_ascii "options  {Packet= zchar[ 3
+] u128 = zchar[
+42 ] a1=
+'\x00'	;
+crc=	0	; //	t
 }
 ")).
-Eval vm_compute in ("<<<M3312>>>" ++ check (runes_of_ascii "packet o { @tag( 42 ) repeat x { char[ // c
-0123456789 ] i64_ , } , } options { }")).
-Eval vm_compute in ("<<<M2908>>>" ++ check (runes_of_ascii "packet A {
-  match k as n {
-    [""a"", ""bb"", 007, ""d"", ""e""] : B,
-    2 : C
-  },
-}")).
-Eval vm_compute in ("<<<M2925>>>" ++ check (runes_of_ascii "packet A {
-  match k as n {
-    [1, 22, 007, 4, 5, 66, 7] : B
-    2 : C
-  },
-}")).
-Eval vm_compute in ("<<<M2895>>>" ++ check (runes_of_ascii "packet A {
-  match k as n {
-    [""a"", ""bb"", 007, ""d""] : B,
-    2 : C
-  },
-}")).
-Eval vm_compute in ("<<<M2975>>>" ++ check (runes_of_ascii "packet A { Inner { match k as n { [1,22,007,4,5,66,7,8,9,10] : B, }, }, }")).
-Eval vm_compute in ("<<<M1277>>>" ++ check (runes_of_ascii "options{
-    lengthOf = zchar[//	t
-0 ]
-Logon =42
-roots = ""CRC32""
-    }")).
-Eval vm_compute in ("<<<M471>>>" ++ check (runes_of_ascii "MetaData charz {  int8 _x `tab	here` ,u64 Pad
-`say ""hi""`
-    ,
-    }
+Eval vm_compute in ("<<<M1844>>>" ++ check (runes_of_ascii "packet
+    Pad // a // b
+{ i8i8 @calculatedFrom( ""a	b"") `u8 x,` ,
+} options{")).
+Eval vm_compute in ("<<<M909>>>" ++ check (runes_of_ascii "options {
+T =' '	asx ='\x00' ; falsey /// triple
+=  ' '
+// " ++ [128512]%N ++ runes_of_ascii " emoji
+// c
+}
 ")).
-Eval vm_compute in ("<<<M2207>>>" ++ check (runes_of_ascii "\ root
+Eval vm_compute in ("<<<M2889>>>" ++ check (runes_of_ascii "packet A {
+  match k as n {
+    [1, ""bb"", 007, ""d""] : B,
+    2 : C
+  },
+}")).
+Eval vm_compute in ("<<<M321>>>" ++ check (runes_of_ascii "MetaData As { } MetaData asx
+{
+    char[ 007 ] Logon
+`two words` , }
+")).
+Eval vm_compute in ("<<<M3739>>>" ++ check (runes_of_ascii "  packet
+A
+    {
+    B
+{ match
+
+k
+as
+	n {
+1
+:
+	C
+    }
+	,
+    }
+
+, }")).
+Eval vm_compute in ("<<<M2197>>>" ++ check (runes_of_ascii "# root
     // `tick` ""quote"" 'q'
     packet As { trueish Packet , }
 ")).
-Eval vm_compute in ("<<<M1829>>>" ++ check (runes_of_ascii "packet
-    Pad // a // b
-{ i8i8 @calculatedFrom( ""a	b"") `u8 x,` ,")).
-Eval vm_compute in ("<<<M2873>>>" ++ check (runes_of_ascii "packet A {
-  match k as n {
-    [1, 22, 007] : B
-    2 : C
-  },
-}")).
-Eval vm_compute in ("<<<M4446>>>" ++ check (runes_of_ascii "options {
-    i64_ = ""x y""
-    _x = int32
-    i64_ = '0'
-}// " ++ [27880; 37322]%N)).
-Eval vm_compute in ("<<<M1763>>>" ++ check (runes_of_ascii "options { }options {  @calculatedFrom( // `tick` ""quote"" 'q'")).
+Eval vm_compute in ("<<<M1018>>>" ++ check (runes_of_ascii "// @lengthOf(
+MetaData chars { Header BodyLength , char[] int ,
+}
+")).
+Eval vm_compute in ("<<<M2181>>>" ++ check (runes_of_ascii "root
+    // `tick` ""quote"" 'q'
+    packet As { trueish Packet  }
+")).
+Eval vm_compute in ("<<<M3838>>>" ++ check (runes_of_ascii "MetaData
+
+    trueish
+{char[]  chars,
+    char[]
+	int
+	,
+}
+")).
+Eval vm_compute in ("<<<M1227>>>" ++ check (runes_of_ascii "
+MetaData metadata { uint8 metadata
+`a\` ,
+    char len	, }")).
 Eval vm_compute in ("<<<M676>>>" ++ check (runes_of_ascii "//x
 packet zchar { @calculatedFrom(
 ""CRC32"") lengthOf , }")).
@@ -2218,93 +2206,94 @@ Eval vm_compute in ("<<<M3182>>>" ++ check (runes_of_ascii "packet A {
         1 : B,// c
     },
 }")).
-Eval vm_compute in ("<<<M1927>>>" ++ check (runes_of_ascii "
+Eval vm_compute in ("<<<M1917>>>" ++ check (runes_of_ascii "
 packet	As { @calculatedFrom(//x
-""{,}""	), lengthOf } 	 ")).
-Eval vm_compute in ("<<<M138>>>" ++ check (runes_of_ascii "MetaData
-    /// triple
-    falsey { uint16 Z9_ ,
-}")).
-Eval vm_compute in ("<<<M1995>>>" ++ check (runes_of_ascii "root
+)	""{,}""lengthOf , } 	 ")).
+Eval vm_compute in ("<<<M2000>>>" ++ check (runes_of_ascii "root
 packet crc
-    { f32a @calculatedFrom( """ ++ [233]%N ++ runes_of_ascii "t" ++ [233]%N ++ runes_of_ascii """")).
-Eval vm_compute in ("<<<M4282>>>" ++ check (runes_of_ascii "packet A {
-    u8 x,
-}// a
-
-// b
-packet B {
-}// c")).
-Eval vm_compute in ("<<<M1773>>>" ++ check (runes_of_ascii "options { }options {  } // `tick` ""quote"" 'q'\ ")).
-Eval vm_compute in ("<<<M4185>>>" ++ check (runes_of_ascii "packet o 
-	//	t
-  // `tick` ""quote"" 'q'
+    { f32a @calculatedFrom( """ ++ [233]%N ++ runes_of_ascii "t" ++ [233]%N ++ runes_of_ascii """ )")).
+Eval vm_compute in ("<<<M2411>>>" ++ check (runes_of_ascii "\ MetaData A
 {
+i64
+chars	, } // `tick` ""quote"" 'q'")).
+Eval vm_compute in ("<<<M150>>>" ++ check (runes_of_ascii "options {float
+    = 4294967296 ;} options
+{ }
+")).
+Eval vm_compute in ("<<<M2102>>>" ++ check (runes_of_ascii "MetaData MetaData x
+{// " ++ [128512]%N ++ runes_of_ascii " emoji
+i16 stringy , }")).
+Eval vm_compute in ("<<<M4017>>>" ++ check (runes_of_ascii "options {
 }
-")).
-Eval vm_compute in ("<<<M2831>>>" ++ check (runes_of_ascii "char[ ( true f32 packet u64 255 string false")).
-Eval vm_compute in ("<<<M1719>>>" ++ check (runes_of_ascii "root packet /// triple
-rootA {	i32
-MetaDa")).
-Eval vm_compute in ("<<<M3724>>>" ++ check (runes_of_ascii "// c
-MetaData zchar {
-    zchar[3] Pad,
-}")).
-Eval vm_compute in ("<<<M3190>>>" ++ check (runes_of_ascii "MetaData // c
-zchar { zchar[ 3 ] Pad , }")).
-Eval vm_compute in ("<<<M2147>>>" ++ check (runes_of_ascii "MetaData x
-{// " ++ [128512]%N ++ runes_of_ascii " emoji
-i16 s'tringy , }")).
-Eval vm_compute in ("<<<M2779>>>" ++ check (runes_of_ascii "PCH{:;a*+BX,D;fDx(|3g)Qf5i123k>6$5!tGz")).
-Eval vm_compute in ("<<<M2122>>>" ++ check (runes_of_ascii "MetaData x
-{// " ++ [128512]%N ++ runes_of_ascii " emoji
-i16 ""x y"" , }")).
-Eval vm_compute in ("<<<M3762>>>" ++ check (runes_of_ascii "root packet
 
-repeatCount
-	{
-A ,
-	}")).
-Eval vm_compute in ("<<<M2690>>>" ++ check (runes_of_ascii "[ : : @lengthOf( root true as 255")).
-Eval vm_compute in ("<<<M4330>>>" ++ check (runes_of_ascii "packet A {
-    u8 x `d" ++ [8233]%N ++ runes_of_ascii "`,// c" ++ [8233]%N ++ runes_of_ascii "
-}")).
-Eval vm_compute in ("<<<M3068>>>" ++ check (runes_of_ascii "packet A {
- u8 x `d" ++ [12288]%N ++ runes_of_ascii "`, // c" ++ [12288]%N ++ runes_of_ascii "
-}")).
-Eval vm_compute in ("<<<M3026>>>" ++ check (runes_of_ascii "packet A {
-    u8 x `a
-
-b`,
-}")).
-Eval vm_compute in ("<<<M1300>>>" ++ check (runes_of_ascii "//
-options {	int
+options {
+}// `tick` ""quote"" " ++ [65279]%N ++ runes_of_ascii "'q'")).
+Eval vm_compute in ("<<<M1990>>>" ++ check (runes_of_ascii "root
+packet crc
+    { f32a @calculatedFrom(")).
+Eval vm_compute in ("<<<M397>>>" ++ check (runes_of_ascii "
+options { string_
 =
-true; }")).
-Eval vm_compute in ("<<<M2094>>>" ++ check (runes_of_ascii "MetaData \ A { u64 pack, }")).
-Eval vm_compute in ("<<<M2619>>>" ++ check (runes_of_ascii "packet A { @tag() u8 x, }")).
-Eval vm_compute in ("<<<M2661>>>" ++ check (runes_of_ascii "options { a = char[x]; }")).
-Eval vm_compute in ("<<<M2574>>>" ++ check (runes_of_ascii "packet A { x `d` `e`, }")).
-Eval vm_compute in ("<<<M2766>>>" ++ check ([28; 31; 65533; 22; 1; 65533]%N ++ runes_of_ascii "W" ++ [65533]%N ++ runes_of_ascii "??=" ++ [65533]%N ++ runes_of_ascii "Bq" ++ [65533]%N ++ runes_of_ascii "[" ++ [65533; 65533; 15]%N ++ runes_of_ascii "\)$")).
-Eval vm_compute in ("<<<M4238>>>" ++ check (runes_of_ascii "packet u {
-}// a // b")).
-Eval vm_compute in ("<<<M2570>>>" ++ check (runes_of_ascii "packet A { x y z, }")).
-Eval vm_compute in ("<<<M2747>>>" ++ check ([65533; 65533; 1; 65533; 65533; 65533; 65533]%N ++ runes_of_ascii "@" ++ [65533; 767]%N ++ runes_of_ascii "<x2" ++ [65533; 65533]%N ++ runes_of_ascii "Xq" ++ [65533]%N)).
-Eval vm_compute in ("<<<M3124>>>" ++ check (runes_of_ascii "packet A {
-}// c 	")).
-Eval vm_compute in ("<<<M3059>>>" ++ check (runes_of_ascii "packet A {
-}// c ")).
-Eval vm_compute in ("<<<M3632>>>" ++ check (runes_of_ascii "packet A {
-}// c")).
-Eval vm_compute in ("<<<M2631>>>" ++ check (runes_of_ascii "packet A { } 1")).
-Eval vm_compute in ("<<<M532>>>" ++ check (runes_of_ascii " /// triple")).
-Eval vm_compute in ("<<<M2480>>>" ++ check (runes_of_ascii "@leftPadx")).
-Eval vm_compute in ("<<<M2489>>>" ++ check (runes_of_ascii "@tag(1)")).
-Eval vm_compute in ("<<<M191>>>" ++ check (runes_of_ascii "//
+    zchar[ 007
+] ; }")).
+Eval vm_compute in ("<<<M3189>>>" ++ check (runes_of_ascii "
+// c
+MetaData zchar { zchar[ 3 ] Pad , }")).
+Eval vm_compute in ("<<<M3188>>>" ++ check (runes_of_ascii "// c
+MetaData zchar { zchar[ 3 ] Pad , }")).
+Eval vm_compute in ("<<<M2142>>>" ++ check (runes_of_ascii "MetaData x
+{// " ++ [128512]%N ++ runes_of_ascii " emoji
+i16 @stringy , }")).
+Eval vm_compute in ("<<<M2779>>>" ++ check (runes_of_ascii "PCH{:;a*+BX,D;fDx(|3g)Qf5i123k>6$5!tGz")).
+Eval vm_compute in ("<<<M2104>>>" ++ check (runes_of_ascii "uint64 x
+{// " ++ [128512]%N ++ runes_of_ascii " emoji
+i16 stringy , }")).
+Eval vm_compute in ("<<<M2029>>>" ++ check (runes_of_ascii "root
+packet crc
+    { f32a @calcu")).
+Eval vm_compute in ("<<<M4166>>>" ++ check (runes_of_ascii "
+root	packet
 
-
+    o
+    {  }
 ")).
-Eval vm_compute in ("<<<M3085>>>" ++ check (runes_of_ascii "// c" ++ [8192]%N)).
-Eval vm_compute in ("<<<M2539>>>" ++ check (runes_of_ascii "{}{}")).
-Eval vm_compute in ("<<<M2542>>>" ++ check (runes_of_ascii "ab")).
-Eval vm_compute in ("<<<M2704>>>" ++ check (runes_of_ascii ",X")).
+Eval vm_compute in ("<<<M3019>>>" ++ check (runes_of_ascii "root packet A {
+    u8 x `
+`,
+}")).
+Eval vm_compute in ("<<<M3098>>>" ++ check (runes_of_ascii "packet A {
+ u8 x `d" ++ [8232]%N ++ runes_of_ascii "`, // c" ++ [8232]%N ++ runes_of_ascii "
+}")).
+Eval vm_compute in ("<<<M462>>>" ++ check (runes_of_ascii "packet
+    // " ++ [27880; 37322]%N ++ runes_of_ascii "
+    tag
+{}
+")).
+Eval vm_compute in ("<<<M2621>>>" ++ check (runes_of_ascii "packet A { @leftPad u8 x, }")).
+Eval vm_compute in ("<<<M2575>>>" ++ check (runes_of_ascii "packet A { u8 x `d` `e`, }")).
+Eval vm_compute in ("<<<M2782>>>" ++ check ([65533]%N ++ runes_of_ascii "`js" ++ [65533; 18; 65533; 65533; 0]%N ++ runes_of_ascii "}P" ++ [65533; 31; 1653]%N ++ runes_of_ascii "m" ++ [65533; 65533; 65533; 65533]%N ++ runes_of_ascii "E,T" ++ [65533]%N ++ runes_of_ascii "b" ++ [65533]%N)).
+Eval vm_compute in ("<<<M3269>>>" ++ check (runes_of_ascii "// c
+options { u8x = 3 }")).
+Eval vm_compute in ("<<<M2574>>>" ++ check (runes_of_ascii "packet A { x `d` `e`, }")).
+Eval vm_compute in ("<<<M2700>>>" ++ check (runes_of_ascii "K gGV$myFaQIVqDT=DBdbG")).
+Eval vm_compute in ("<<<M94>>>" ++ check (runes_of_ascii "  options //x
+{} 	 ")).
+Eval vm_compute in ("<<<M2593>>>" ++ check (runes_of_ascii "packet A { B { }, }")).
+Eval vm_compute in ("<<<M2656>>>" ++ check (runes_of_ascii "options { a = b; }")).
+Eval vm_compute in ("<<<M3116>>>" ++ check (runes_of_ascii "packet A {
+}
+// c" ++ [11]%N)).
+Eval vm_compute in ("<<<M2815>>>" ++ check (runes_of_ascii "^oT&]t,1C?E|)]Q{2")).
+Eval vm_compute in ("<<<M2793>>>" ++ check (runes_of_ascii ", ] = ""`tick`"" {")).
+Eval vm_compute in ("<<<M2727>>>" ++ check (runes_of_ascii "A" ++ [65533; 65533; 65533; 65533]%N ++ runes_of_ascii "}" ++ [65533; 8; 20; 65533; 65533; 65533]%N ++ runes_of_ascii "J")).
+Eval vm_compute in ("<<<M915>>>" ++ check (runes_of_ascii "options{ }
+")).
+Eval vm_compute in ("<<<M2750>>>" ++ check (runes_of_ascii "} } i64 ]")).
+Eval vm_compute in ("<<<M848>>>" ++ check (runes_of_ascii "
+//	t
+")).
+Eval vm_compute in ("<<<M2434>>>" ++ check (runes_of_ascii "zchar")).
+Eval vm_compute in ("<<<M3130>>>" ++ check (runes_of_ascii "// c" ++ [8203]%N)).
+Eval vm_compute in ("<<<M73>>>" ++ check (runes_of_ascii " 	 ")).
+Eval vm_compute in ("<<<M2677>>>" ++ check (runes_of_ascii "`d`")).
+Eval vm_compute in ("<<<M2492>>>" ++ check (runes_of_ascii "@")).
